@@ -169,3 +169,1973 @@ theorem TaskTick.mono {e : Env} {w : Store} {tr tr2 : List Ev} {st : Status} {t0
   exact ⟨f', t', trt, ht, fun ev hev => hsub ev (hs ev hev), hst⟩
 
 end C18c
+
+namespace C18c
+open C18b
+
+/-! ## 2. one option, one tick -/
+
+/-- the Sequence loop over the single subtree -/
+theorem taskLoop (f : Nat) (e : Env) (w : Store) (t0 : Node) (hnb : noBB t0 = true) (d2 : List Node)
+    (r : Option (Node × List Node)) (w' : Store) (tr2 : List Ev)
+    (h : seqLoop (tickF f e) w [t0] = .ok (d2, r, w', tr2)) :
+    ∃ c2 trt, tickF f e w t0 = .ok (c2, w, trt) ∧ w' = w ∧ (∀ ev ∈ trt, ev ∈ tr2) ∧ (∀ ev ∈ tr2, ev ∈ trt) ∧
+      ((c2.status ≠ .success ∧ d2 = [] ∧ r = some (c2, [])) ∨ (c2.status = .success ∧ d2 = [c2] ∧ r = none)) := by
+  obtain ⟨c1, w1, tr1, hT, hcase⟩ := seqLoop_cons_inv _ _ _ _ _ _ _ _ h
+  obtain rfl := tickF_noBB_store e f w t0 c1 w1 tr1 hnb hT
+  rcases hcase with ⟨hns, h1, h2, h3, h4⟩ | ⟨hs, d, tr3, hl, h1, h2⟩
+  · subst h1 h2 h3 h4
+    exact ⟨c1, _, hT, rfl, fun _ h => h, fun _ h => h, Or.inl ⟨hns, rfl, rfl⟩⟩
+  · simp only [seqLoop, pure, Except.pure, Except.ok.injEq, Prod.mk.injEq] at hl
+    obtain ⟨h5, h6, h7, h8⟩ := hl
+    subst h1 h2 h5 h6 h7 h8
+    exact ⟨c1, _, hT, rfl, fun _ h => by simp [h], fun _ h => by simpa using h, Or.inr ⟨hs, rfl, rfl⟩⟩
+
+/-- **one option, one tick** (explicit form), for an option in a sane state -/
+theorem opt_tick (o : Opt) (ost : Status) (ocur : Option Nat) (gst : Status) (glog : List LEv) (t : Node)
+    (ht : skel t = skel o.task) (hnb : noBB o.task = true) (hnd : (optSkel o).ids.Nodup)
+    (f : Nat) (e : Env) (w : Store) (n' : Node) (w' : Store) (tr : List Ev)
+    (hok : ost = .running → ocur = some t.id)
+    (h : tickF f e w (optNode o ost ocur gst glog t) = .ok (n', w', tr)) :
+    w' = w ∧ optOK n' = true ∧ Ev.enter o.oid ∈ tr ∧
+    (ost = .running → TaskTick e w tr n'.status t ∧ Ev.enter o.gid ∉ tr) ∧
+    (ost ≠ .running → Ev.enter o.gid ∈ tr ∧
+      (¬ flagOn w o.flag → n'.status = .failure ∧ ∀ j, Ev.enter j ∈ tr → j = o.oid ∨ j = o.gid) ∧
+      (flagOn w o.flag → ∃ t0, skel t0 = skel o.task ∧ TaskTick e w tr n'.status t0)) := by
+  obtain ⟨hto, htg, hgo, hgt, hot⟩ := opt_id_facts o hnd
+  have hnbt : noBB t = true := by rw [noBB_of_skel ht]; exact hnb
+  have hself := tickF_enter_self e f w _ n' w' tr h
+  simp only [optNode, Node.id] at hself
+  unfold optNode at h
+  obtain ⟨f', before, rest, trR, done, r, trl, rfl, hen, hl, hent, hsub, hshape⟩ :=
+    root_tick_inv f e w o.oid ost ocur _ n' w' tr (by simp) h
+  have hidt : t.id = o.task.id := id_of_skel ht
+  by_cases hst : ost = .running
+  · have hc := hok hst
+    subst hst; subst hc
+    have hgne : (leaf o.gid gst (.checkValue { key := o.flag, path := [], op := .eq, value := .bool true }) glog).id
+        ≠ t.id := by rw [hidt]; exact fun h => htg h.symm
+    simp only [seqEntry, splitAtId, hgne, ne_eq, not_true_eq_false, ↓reduceIte, pure, Except.pure,
+      Option.map, Except.ok.injEq, Prod.mk.injEq] at hen
+    obtain ⟨rfl, rfl, rfl⟩ := hen
+    obtain ⟨c2, trt, hT, hw, hs1, hs2, hcase⟩ := taskLoop f' e w t hnbt done r w' trl hl
+    subst w'
+    have hTT : ∀ st, st = c2.status → TaskTick e w tr st t :=
+      fun st hst => ⟨f', c2, trt, hT, fun ev hev => hsub ev (hs1 ev hev), hst⟩
+    have hng : Ev.enter o.gid ∉ tr := by
+      intro hin
+      rcases hent _ hin with h1 | h1
+      · exact hgo h1
+      · have := tickF_enters e f' w t c2 w trt hT _ (hs2 _ h1)
+        rw [ht] at this; exact hgt this
+    refine ⟨rfl, ?_, hself, fun _ => ⟨?_, hng⟩, fun hne => absurd rfl hne⟩
+    · rcases hcase with ⟨hns, rfl, rfl⟩ | ⟨hs, rfl, rfl⟩
+      · rcases hshape with ⟨h1, _⟩ | ⟨c', u, h1, rfl⟩
+        · cases h1
+        · simp only [Option.some.injEq, Prod.mk.injEq] at h1
+          obtain ⟨rfl, rfl⟩ := h1
+          simp [optOK]
+      · rcases hshape with ⟨_, rfl⟩ | ⟨c', u, h1, _⟩
+        · simp [optOK]
+        · cases h1
+    · rcases hcase with ⟨hns, rfl, rfl⟩ | ⟨hs, rfl, rfl⟩
+      · rcases hshape with ⟨h1, _⟩ | ⟨c', u, h1, rfl⟩
+        · cases h1
+        · simp only [Option.some.injEq, Prod.mk.injEq] at h1
+          obtain ⟨rfl, rfl⟩ := h1
+          exact hTT _ rfl
+      · rcases hshape with ⟨_, rfl⟩ | ⟨c', u, h1, _⟩
+        · exact hTT _ hs.symm
+        · cases h1
+  · have hsplit : ∃ gst' glog', (stopInvNonInvalid
+        [leaf o.gid gst (.checkValue { key := o.flag, path := [], op := .eq, value := .bool true }) glog, t]).1 =
+        [leaf o.gid gst' (.checkValue { key := o.flag, path := [], op := .eq, value := .bool true }) glog',
+         if ¬ t.status = .invalid then (stopInv t).1 else t] := by
+      have hls : ∀ x, (leaf o.gid x (.checkValue { key := o.flag, path := [], op := .eq, value := .bool true })
+          glog).status = x := fun _ => rfl
+      by_cases h1 : t.status = .invalid <;> by_cases h2 : gst = .invalid <;>
+        simp [stopInvNonInvalid, stopInv, hls, h1, h2]
+    obtain ⟨gst', glog', hsp⟩ := hsplit
+    simp only [seqEntry, ne_eq, hst, not_false_eq_true, ↓reduceIte, pure, Except.pure, hsp, Except.ok.injEq,
+      Prod.mk.injEq] at hen
+    obtain ⟨rfl, rfl, rfl⟩ := hen
+    generalize ht0 : (if ¬ t.status = .invalid then (stopInv t).1 else t) = t0 at hl
+    have hsk0 : skel t0 = skel o.task := by
+      rw [← ht0]
+      split
+      · rw [stopInv_skel]; exact ht
+      · exact ht
+    have hnb0 : noBB t0 = true := by rw [noBB_of_skel hsk0]; exact hnb
+    obtain ⟨c1, w1, tr1, hG, hcase⟩ := seqLoop_cons_inv _ _ _ _ _ _ _ _ hl
+    obtain ⟨f2, rfl⟩ : ∃ f2, f' = f2 + 1 := by
+      cases f' with
+      | zero => simp [tickF] at hG
+      | succ f2 => exact ⟨f2, rfl⟩
+    obtain ⟨og, l', trg, hgtk, hiff, hor⟩ := guard_tick e w o.gid gst' glog' o.flag
+    simp only [tickF, hgtk, Except.ok.injEq, Prod.mk.injEq] at hG
+    obtain ⟨rfl, rfl, rfl⟩ := hG
+    have hGe := leafTick_enters e w o.gid gst' _ glog' _ w trg hgtk
+    have hGs : Ev.enter o.gid ∈ trg := by
+      have := tickF_enter_self e (f2 + 1) w
+        (leaf o.gid gst' (.checkValue { key := o.flag, path := [], op := .eq, value := .bool true }) glog') _ w trg
+        (by simp only [tickF]; exact hgtk)
+      simpa [Node.id] using this
+    refine ⟨?_, ?_, hself, fun h1 => absurd h1 hst, fun _ => ⟨?_, ?_, ?_⟩⟩
+    · rcases hcase with ⟨_, _, _, rfl, _⟩ | ⟨_, d2, tr2, hl2, _, _⟩
+      · rfl
+      · obtain ⟨_, _, _, hw, _⟩ := taskLoop (f2 + 1) e w t0 hnb0 d2 r w' tr2 hl2
+        exact hw
+    · rcases hcase with ⟨hns, rfl, rfl, rfl, rfl⟩ | ⟨hs, d2, tr2, hl2, rfl, rfl⟩
+      · rcases hshape with ⟨h1, _⟩ | ⟨c', u, h1, rfl⟩
+        · cases h1
+        · simp only [Option.some.injEq, Prod.mk.injEq] at h1
+          obtain ⟨rfl, rfl⟩ := h1
+          simp only [Node.status] at hns
+          have : og = .failure := by rcases hor with h | h; exact absurd h hns; exact h
+          subst this
+          simp [optOK, Node.status]
+      · obtain ⟨c2, trt, hT, _, hs1, hs2, hc2⟩ := taskLoop (f2 + 1) e w t0 hnb0 d2 r w' tr2 hl2
+        rcases hc2 with ⟨hns, rfl, rfl⟩ | ⟨hs2', rfl, rfl⟩
+        · rcases hshape with ⟨h1, _⟩ | ⟨c', u, h1, rfl⟩
+          · cases h1
+          · simp only [Option.some.injEq, Prod.mk.injEq] at h1
+            obtain ⟨rfl, rfl⟩ := h1
+            simp [optOK]
+        · rcases hshape with ⟨_, rfl⟩ | ⟨c', u, h1, _⟩
+          · simp [optOK]
+          · cases h1
+    · apply hsub
+      rcases hcase with ⟨_, _, _, _, rfl⟩ | ⟨_, d2, tr2, _, _, rfl⟩
+      · exact hGs
+      · simp [hGs]
+    · intro hoff
+      have hof : og = .failure := by
+        rcases hor with h1 | h1
+        · exact absurd (hiff.mp h1) hoff
+        · exact h1
+      subst hof
+      rcases hcase with ⟨hns, rfl, rfl, rfl, rfl⟩ | ⟨hs, _⟩
+      · rcases hshape with ⟨h1, _⟩ | ⟨c', u, h1, rfl⟩
+        · cases h1
+        · simp only [Option.some.injEq, Prod.mk.injEq] at h1
+          obtain ⟨rfl, rfl⟩ := h1
+          refine ⟨rfl, ?_⟩
+          intro j hj
+          rcases hent j hj with h1 | h1
+          · exact Or.inl h1
+          · right; simpa using hGe j h1
+      · simp [Node.status] at hs
+    · intro hon
+      have hos : og = .success := hiff.mpr hon
+      subst hos
+      rcases hcase with ⟨hns, _⟩ | ⟨hs, d2, tr2, hl2, rfl, rfl⟩
+      · simp [Node.status] at hns
+      · obtain ⟨c2, trt, hT, _, hs1, hs2, hc2⟩ := taskLoop (f2 + 1) e w t0 hnb0 d2 r w' tr2 hl2
+        refine ⟨t0, hsk0, f2 + 1, c2, trt, hT, fun ev hev => hsub ev (by simp [hs1 ev hev]), ?_⟩
+        rcases hc2 with ⟨hns, rfl, rfl⟩ | ⟨hs2', rfl, rfl⟩
+        · rcases hshape with ⟨h1, _⟩ | ⟨c', u, h1, rfl⟩
+          · cases h1
+          · simp only [Option.some.injEq, Prod.mk.injEq] at h1
+            obtain ⟨rfl, rfl⟩ := h1
+            rfl
+        · rcases hshape with ⟨_, rfl⟩ | ⟨c', u, h1, _⟩
+          · exact hs2'.symm
+          · cases h1
+
+end C18c
+
+namespace C18c
+open C18b
+
+/-- the subtree of the option will be ticked: the option is RUNNING (it resumes at the subtree) or its flag is set -/
+def Elig (w : Store) (o : Opt) (c : Node) : Prop := c.status = .running ∨ flagOn w o.flag
+
+/-- **one option, one tick**, for a node that is the option in a sane state -/
+theorem opt_tick_node (o : Opt) (c : Node) (hc : IsOpt o c) (hnb : noBB o.task = true) (hnd : (optSkel o).ids.Nodup)
+    (hokc : optOK c = true) (f : Nat) (e : Env) (w : Store) (c' : Node) (w' : Store) (tr : List Ev)
+    (h : tickF f e w c = .ok (c', w', tr)) :
+    w' = w ∧ optOK c' = true ∧ IsOpt o c' ∧ Enters (optSkel o).ids tr ∧ Ev.enter o.oid ∈ tr ∧
+    (Elig w o c → ∃ t0, skel t0 = skel o.task ∧ TaskTick e w tr c'.status t0) ∧
+    (¬ Elig w o c → c'.status = .failure ∧ Ev.enter o.task.id ∉ tr) ∧
+    (c.status = .running → Ev.enter o.gid ∉ tr) ∧ (c.status ≠ .running → Ev.enter o.gid ∈ tr) := by
+  have hsk := tickF_skel e f w c c' w' tr h
+  have hen := tickF_enters e f w c c' w' tr h
+  rw [(isOpt_iff_skel o c).mp hc] at hen
+  obtain ⟨ost, ocur, gst, glog, t, rfl, ht⟩ := hc
+  obtain ⟨h1, h2, h3, h4, h5⟩ := opt_tick o ost ocur gst glog t ht hnb hnd f e w c' w' tr
+    ((optOK_optNode o ost ocur gst glog t).mp hokc) h
+  obtain ⟨hto, htg, _⟩ := opt_id_facts o hnd
+  have hst : (optNode o ost ocur gst glog t).status = ost := rfl
+  refine ⟨h1, h2, isOpt_of_skel ⟨ost, ocur, gst, glog, t, rfl, ht⟩ hsk, hen, h3, ?_, ?_, ?_, ?_⟩
+  · intro hel
+    by_cases hr : ost = .running
+    · exact ⟨t, ht, (h4 hr).1⟩
+    · rcases hel with hel | hel
+      · exact absurd hel hr
+      · exact (h5 hr).2.2 hel
+  · intro hel
+    simp only [Elig, hst, not_or] at hel
+    obtain ⟨hf, hent⟩ := (h5 hel.1).2.1 hel.2
+    refine ⟨hf, ?_⟩
+    intro hin
+    rcases hent _ hin with h | h
+    · exact hto h
+    · exact htg h
+  · intro hr; exact (h4 hr).2
+  · intro hr; exact (h5 hr).1
+
+/-- one step of the Selector loop -/
+theorem selLoop_cons_inv (T : Tick) (w : Store) (c : Node) (cs done : List Node) (r : Option (Node × List Node))
+    (w' : Store) (tr : List Ev) (h : selLoop T w (c :: cs) = .ok (done, r, w', tr)) :
+    ∃ c1 w1 tr1, T w c = .ok (c1, w1, tr1) ∧
+      (((c1.status = .running ∨ c1.status = .success) ∧ done = [] ∧ r = some (c1, cs) ∧ w' = w1 ∧ tr = tr1) ∨
+       (¬ (c1.status = .running ∨ c1.status = .success) ∧
+          ∃ d2 tr2, selLoop T w1 cs = .ok (d2, r, w', tr2) ∧ done = c1 :: d2 ∧ tr = tr1 ++ tr2)) := by
+  simp only [selLoop, bind, Except.bind] at h
+  cases htc : T w c with
+  | error err => simp [htc] at h
+  | ok v =>
+    obtain ⟨c1, w1, tr1⟩ := v
+    simp only [htc] at h
+    refine ⟨c1, w1, tr1, rfl, ?_⟩
+    by_cases hs : c1.status = .running ∨ c1.status = .success
+    · left
+      simp only [hs, ↓reduceIte, pure, Except.pure, Except.ok.injEq, Prod.mk.injEq] at h
+      obtain ⟨h1, h2, h3, h4⟩ := h
+      exact ⟨hs, h1.symm, h2.symm, h3.symm, h4.symm⟩
+    · right
+      simp only [hs, ↓reduceIte] at h
+      cases hl : selLoop T w1 cs with
+      | error err => simp [hl] at h
+      | ok v =>
+        obtain ⟨d2, r2, w2, tr2⟩ := v
+        simp only [hl, pure, Except.pure, Except.ok.injEq, Prod.mk.injEq] at h
+        obtain ⟨h1, h2, h3, h4⟩ := h
+        subst h1 h2 h3 h4
+        exact ⟨hs, d2, tr2, rfl, rfl, rfl⟩
+
+theorem head_not_in_tail (o : Opt) (os : List Opt) (hnd : (Skel.idsL ((o :: os).map optSkel)).Nodup) : o ∉ os := by
+  intro hin
+  simp only [List.map_cons, Skel.idsL, List.nodup_append] at hnd
+  exact hnd.2.2 _ (oid_mem_opt o) _ ((mem_idsL_opts os _).mpr ⟨o, hin, oid_mem_opt o⟩) rfl
+
+theorem isOpt_unique {opts : List Opt} (hnd : (Skel.idsL (opts.map optSkel)).Nodup) {o o' : Opt} {c : Node}
+    (ho : o ∈ opts) (ho' : o' ∈ opts) (h : IsOpt o c) (h' : IsOpt o' c) : o = o' := by
+  have : o.oid = o'.oid := by rw [← isOpt_id h, ← isOpt_id h']
+  exact opt_ids_unique opts hnd o ho o' ho' o.oid (oid_mem_opt o) (by rw [this]; exact oid_mem_opt o')
+
+theorem tail_nodup (o : Opt) (os : List Opt) (hnd : (Skel.idsL ((o :: os).map optSkel)).Nodup) :
+    (Skel.idsL (os.map optSkel)).Nodup := by
+  simp only [List.map_cons, Skel.idsL, List.nodup_append] at hnd
+  exact hnd.2.1
+
+/-- ids of the head option do not occur in the ids of the later options -/
+theorem head_ids_disjoint (o : Opt) (os : List Opt) (hnd : (Skel.idsL ((o :: os).map optSkel)).Nodup)
+    (x : Nat) (hx : x ∈ (optSkel o).ids) : x ∉ Skel.idsL (os.map optSkel) := by
+  intro hin
+  simp only [List.map_cons, Skel.idsL, List.nodup_append] at hnd
+  exact hnd.2.2 _ hx _ hin rfl
+
+end C18c
+
+namespace C18c
+open C18b
+
+theorem not_in_head_trace (o : Opt) (os : List Opt) (hnd : (Skel.idsL ((o :: os).map optSkel)).Nodup)
+    (tr1 : List Ev) (hen : Enters (optSkel o).ids tr1) (x : Opt) (hx : x ∈ os) (y : Nat)
+    (hy : y ∈ (optSkel x).ids) : Ev.enter y ∉ tr1 := by
+  intro hin
+  exact head_ids_disjoint o os hnd y (hen y hin) ((mem_idsL_opts os y).mpr ⟨x, hx, hy⟩)
+
+theorem not_in_tail_trace (o : Opt) (os : List Opt) (hnd : (Skel.idsL ((o :: os).map optSkel)).Nodup)
+    (tr2 : List Ev) (hen : Enters (Skel.idsL (os.map optSkel)) tr2) (y : Nat)
+    (hy : y ∈ (optSkel o).ids) : Ev.enter y ∉ tr2 := by
+  intro hin
+  exact head_ids_disjoint o os hnd y hy (hen y hin)
+
+/-- **the chooser's loop over the options** (options in sane states, any statuses): the store is untouched; the options
+    that were ticked and did not stop the loop (`done`) returned FAILURE/INVALID; the subtree of an option is entered
+    only if the option is eligible (`Elig`: RUNNING, or flag set), its guard only if it was not RUNNING; every eligible
+    option up to and including the stopper had its subtree ticked; nothing after the stopper is entered. -/
+theorem optsLoop (f : Nat) (e : Env) : ∀ (opts : List Opt) (ns : List Node) (w : Store) (done : List Node)
+    (r : Option (Node × List Node)) (w' : Store) (tr : List Ev),
+    AllRel IsOpt opts ns → (∀ o ∈ opts, noBB o.task = true) → (Skel.idsL (opts.map optSkel)).Nodup →
+    (∀ c ∈ ns, optOK c = true) → selLoop (tickF f e) w ns = .ok (done, r, w', tr) →
+    w' = w ∧
+    (∀ d ∈ done, optOK d = true ∧ d.status ≠ .running ∧ d.status ≠ .success) ∧
+    (∀ o ∈ opts, Ev.enter o.task.id ∈ tr → ∃ c ∈ ns, IsOpt o c ∧ Elig w o c) ∧
+    (∀ o ∈ opts, Ev.enter o.gid ∈ tr → ∃ c ∈ ns, IsOpt o c ∧ c.status ≠ .running) ∧
+    ∃ o1 o2 n1 n2, opts = o1 ++ o2 ∧ ns = n1 ++ n2 ∧ AllRel IsOpt o1 n1 ∧ AllRel IsOpt o1 done ∧ AllRel IsOpt o2 n2 ∧
+      (∀ o ∈ o1, ∀ c ∈ n1, IsOpt o c →
+        (Elig w o c → ∃ d ∈ done, IsOpt o d ∧ ∃ t0, skel t0 = skel o.task ∧ TaskTick e w tr d.status t0) ∧
+        (c.status ≠ .running → Ev.enter o.gid ∈ tr)) ∧
+      ((r = none ∧ o2 = []) ∨
+       (∃ c' u o b c0, r = some (c', u) ∧ o2 = o :: b ∧ n2 = c0 :: u ∧ IsOpt o c0 ∧ IsOpt o c' ∧ optOK c' = true ∧
+          (c'.status = .running ∨ c'.status = .success) ∧ Elig w o c0 ∧
+          (∃ t0, skel t0 = skel o.task ∧ TaskTick e w tr c'.status t0) ∧
+          (c0.status = .running → Ev.enter o.gid ∉ tr) ∧ (c0.status ≠ .running → Ev.enter o.gid ∈ tr) ∧
+          (∀ x ∈ b, Ev.enter x.task.id ∉ tr ∧ Ev.enter x.gid ∉ tr ∧ Ev.enter x.oid ∉ tr)))
+| [], [], w, done, r, w', tr, _, _, _, _, h => by
+    simp only [selLoop, pure, Except.pure, Except.ok.injEq, Prod.mk.injEq] at h
+    obtain ⟨h1, h2, h3, h4⟩ := h
+    subst h1 h2 h3 h4
+    refine ⟨rfl, by simp, by simp, by simp, [], [], [], [], rfl, rfl, by simp [AllRel], by simp [AllRel],
+      by simp [AllRel], by simp, Or.inl ⟨rfl, rfl⟩⟩
+| [], _ :: _, _, _, _, _, _, h, _, _, _, _ => by simp [AllRel] at h
+| _ :: _, [], _, _, _, _, _, h, _, _, _, _ => by simp [AllRel] at h
+| o :: os, c :: cs, w, done, r, w', tr, hrel, hnb, hnd, hok, h => by
+    simp only [AllRel] at hrel
+    obtain ⟨hc, hrel'⟩ := hrel
+    have hndo : (optSkel o).ids.Nodup := opt_ids_nodup (o :: os) hnd o (by simp)
+    have hnd' := tail_nodup o os hnd
+    obtain ⟨c1, w1, tr1, hT, hcase⟩ := selLoop_cons_inv _ _ _ _ _ _ _ _ h
+    obtain ⟨hw1, hok1, hc1, hen1, hoid1, hE1, hE2, hG1, hG2⟩ :=
+      opt_tick_node o c hc (hnb o (by simp)) hndo (hok c (by simp)) f e w c1 w1 tr1 hT
+    subst w1
+    -- facts about the head option's trace
+    have hA1 : ∀ o' ∈ o :: os, Ev.enter o'.task.id ∈ tr1 → ∃ c_ ∈ c :: cs, IsOpt o' c_ ∧ Elig w o' c_ := by
+      intro o' ho' hin
+      simp only [List.mem_cons] at ho'
+      rcases ho' with rfl | ho'
+      · by_cases hel : Elig w o' c
+        · exact ⟨c, by simp, hc, hel⟩
+        · exact absurd hin (hE2 hel).2
+      · exact absurd hin (not_in_head_trace o os hnd tr1 hen1 o' ho' _ (task_id_mem_opt o'))
+    have hA1' : ∀ o' ∈ o :: os, Ev.enter o'.gid ∈ tr1 → ∃ c_ ∈ c :: cs, IsOpt o' c_ ∧ c_.status ≠ .running := by
+      intro o' ho' hin
+      simp only [List.mem_cons] at ho'
+      rcases ho' with rfl | ho'
+      · by_cases hr : c.status = .running
+        · exact absurd hin (hG1 hr)
+        · exact ⟨c, by simp, hc, hr⟩
+      · exact absurd hin (not_in_head_trace o os hnd tr1 hen1 o' ho' _ (gid_mem_opt o'))
+    rcases hcase with ⟨hs, hd, hr, hw, htr⟩ | ⟨hs, d2, tr2, hl2, hd, htr⟩
+    · subst hd hr
+      subst w'
+      subst tr
+      refine ⟨rfl, by simp, hA1, hA1', [], o :: os, [], c :: cs, rfl, rfl, by simp [AllRel], by simp [AllRel],
+        by simp only [AllRel]; exact ⟨hc, hrel'⟩, by simp, Or.inr ?_⟩
+      have hel : Elig w o c := by
+        by_cases hel : Elig w o c
+        · exact hel
+        · have := (hE2 hel).1
+          rw [this] at hs
+          simp at hs
+      refine ⟨c1, cs, o, os, c, rfl, rfl, rfl, hc, hc1, hok1, hs, hel, hE1 hel, hG1, hG2, ?_⟩
+      intro x hx
+      exact ⟨not_in_head_trace o os hnd tr1 hen1 x hx _ (task_id_mem_opt x),
+        not_in_head_trace o os hnd tr1 hen1 x hx _ (gid_mem_opt x),
+        not_in_head_trace o os hnd tr1 hen1 x hx _ (oid_mem_opt x)⟩
+    · subst hd htr
+      obtain ⟨hw', hdone, hA, hA', o1, o2, n1, n2, hos, hcs, hr1, hr2, hr3, hB, hC⟩ :=
+        optsLoop f e os cs w d2 r w' tr2 hrel' (fun x hx => hnb x (by simp [hx])) hnd'
+          (fun x hx => hok x (by simp [hx])) hl2
+      have hen2 : Enters (Skel.idsL (os.map optSkel)) tr2 := by
+        have := selLoop_enters (tickF f e) (fun w c c' w' tr h => tickF_enters e f w c c' w' tr h) cs w d2 r w' tr2 hl2
+        rwa [(optsAre_iff os cs).mp hrel'] at this
+      have hsub1 : ∀ ev ∈ tr1, ev ∈ tr1 ++ tr2 := fun ev hev => List.mem_append_left _ hev
+      have hsub2 : ∀ ev ∈ tr2, ev ∈ tr1 ++ tr2 := fun ev hev => List.mem_append_right _ hev
+      have ho1 : ∀ x ∈ o1, x ∈ os := fun x hx => by rw [hos]; exact List.mem_append_left _ hx
+      have ho2 : ∀ x ∈ o2, x ∈ os := fun x hx => by rw [hos]; exact List.mem_append_right _ hx
+      refine ⟨hw', ?_, ?_, ?_, o :: o1, o2, c :: n1, n2, by simp [hos], by simp [hcs],
+        by simp only [AllRel]; exact ⟨hc, hr1⟩, by simp only [AllRel]; exact ⟨hc1, hr2⟩, hr3, ?_, ?_⟩
+      · intro d hd
+        simp only [List.mem_cons] at hd
+        rcases hd with rfl | hd
+        · exact ⟨hok1, fun h => hs (Or.inl h), fun h => hs (Or.inr h)⟩
+        · exact hdone d hd
+      · intro o' ho' hin
+        simp only [List.mem_append] at hin
+        rcases hin with hin | hin
+        · exact hA1 o' ho' hin
+        · simp only [List.mem_cons] at ho'
+          rcases ho' with rfl | ho'
+          · exact absurd hin (not_in_tail_trace o' os hnd tr2 hen2 _ (task_id_mem_opt o'))
+          · obtain ⟨c_, hc_, h1, h2⟩ := hA o' ho' hin
+            exact ⟨c_, by simp [hc_], h1, h2⟩
+      · intro o' ho' hin
+        simp only [List.mem_append] at hin
+        rcases hin with hin | hin
+        · exact hA1' o' ho' hin
+        · simp only [List.mem_cons] at ho'
+          rcases ho' with rfl | ho'
+          · exact absurd hin (not_in_tail_trace o' os hnd tr2 hen2 _ (gid_mem_opt o'))
+          · obtain ⟨c_, hc_, h1, h2⟩ := hA' o' ho' hin
+            exact ⟨c_, by simp [hc_], h1, h2⟩
+      · intro o_ ho_ c_ hc_ hoc
+        simp only [List.mem_cons] at ho_ hc_
+        rcases ho_ with rfl | ho_ <;> rcases hc_ with rfl | hc_
+        · refine ⟨fun hel => ?_, fun hr => hsub1 _ (hG2 hr)⟩
+          obtain ⟨t0, ht0, hTT⟩ := hE1 hel
+          exact ⟨c1, by simp, hc1, t0, ht0, hTT.mono hsub1⟩
+        · exfalso
+          obtain ⟨x, hx, hxc⟩ := allRel_mem_right IsOpt o1 n1 hr1 c_ hc_
+          have := isOpt_unique hnd (by simp) (by simp [ho1 x hx]) hoc hxc
+          subst this
+          exact head_not_in_tail o_ os hnd (ho1 _ hx)
+        · exfalso
+          have := isOpt_unique hnd (by simp [ho1 o_ ho_]) (by simp) hoc hc
+          subst this
+          exact head_not_in_tail o_ os hnd (ho1 _ ho_)
+        · obtain ⟨h1, h2⟩ := hB o_ ho_ c_ hc_ hoc
+          refine ⟨fun hel => ?_, fun hr => hsub2 _ (h2 hr)⟩
+          obtain ⟨d, hd, hod, t0, ht0, hTT⟩ := h1 hel
+          exact ⟨d, by simp [hd], hod, t0, ht0, hTT.mono hsub2⟩
+      · rcases hC with ⟨h1, h2⟩ | ⟨c', u, os_, b, c0, h1, h2, h3, h4, h5, h6, h7, h8, ⟨t0, ht0, hTT⟩, h10, h10', h11⟩
+        · exact Or.inl ⟨h1, h2⟩
+        · right
+          have hos_ : os_ ∈ os := ho2 _ (by rw [h2]; simp)
+          refine ⟨c', u, os_, b, c0, h1, h2, h3, h4, h5, h6, h7, h8, ⟨t0, ht0, hTT.mono hsub2⟩, ?_, ?_, ?_⟩
+          · intro hr hin
+            simp only [List.mem_append] at hin
+            rcases hin with hin | hin
+            · exact not_in_head_trace o os hnd tr1 hen1 os_ hos_ _ (gid_mem_opt os_) hin
+            · exact h10 hr hin
+          · intro hr; exact hsub2 _ (h10' hr)
+          · intro x hx
+            have hxos : x ∈ os := ho2 _ (by rw [h2]; simp [hx])
+            obtain ⟨g1, g2, g3⟩ := h11 x hx
+            refine ⟨?_, ?_, ?_⟩ <;> intro hin <;> simp only [List.mem_append] at hin <;> rcases hin with hin | hin
+            · exact not_in_head_trace o os hnd tr1 hen1 x hxos _ (task_id_mem_opt x) hin
+            · exact g1 hin
+            · exact not_in_head_trace o os hnd tr1 hen1 x hxos _ (gid_mem_opt x) hin
+            · exact g2 hin
+            · exact not_in_head_trace o os hnd tr1 hen1 x hxos _ (oid_mem_opt x) hin
+            · exact g3 hin
+
+end C18c
+
+namespace C18c
+open C18b
+
+/-! ## 3. the chooser (memoryless Selector over the options) -/
+
+/-- anatomy of a tick of a memoryless Selector with children -/
+theorem sel_tick_inv (f : Nat) (e : Env) (w : Store) (sid : Nat) (sst : Status) (scur : Option Nat) (os : List Node)
+    (n' : Node) (w' : Store) (tr : List Ev) (hne : os ≠ [])
+    (h : tickF f e w (sel sid false sst scur os) = .ok (n', w', tr)) :
+    ∃ f' failed r trl, f = f' + 1 ∧ selLoop (tickF f' e) w os = .ok (failed, r, w', trl) ∧
+      (∀ j, Ev.enter j ∈ tr → j = sid ∨ Ev.enter j ∈ trl) ∧ (∀ ev ∈ trl, ev ∈ tr) ∧ Ev.enter sid ∈ tr ∧
+      ((r = none ∧ n' = sel sid false .failure (lastId? failed) failed) ∨
+       (∃ c' u tail, r = some (c', u) ∧ n' = sel sid false c'.status (some c'.id) (failed ++ c' :: tail) ∧
+          ((tail = u ∧ (if sst ≠ .running then os.head?.map Node.id else scur) = some c'.id) ∨
+           tail = (stopInvNonInvalid u).1))) := by
+  cases f with
+  | zero => simp [tickF] at h
+  | succ f =>
+    have hemp : os.isEmpty = false := by cases os <;> simp_all
+    simp only [tickF, hemp, Bool.false_eq_true, ↓reduceIte, selEntry, bind, Except.bind, pure, Except.pure,
+      selRun] at h
+    cases hl : selLoop (tickF f e) w os with
+    | error err => simp [hl] at h
+    | ok v =>
+      obtain ⟨failed, r, w1, trl⟩ := v
+      simp only [hl] at h
+      cases r with
+      | none =>
+        simp only [Except.ok.injEq, Prod.mk.injEq] at h
+        obtain ⟨h1, h2, h3⟩ := h
+        subst h1 h2 h3
+        refine ⟨f, failed, none, trl, rfl, hl, ?_, ?_, by simp, Or.inl ⟨rfl, by simp⟩⟩
+        · intro j hj
+          simp only [List.mem_append, List.mem_cons, Ev.enter.injEq, reduceCtorEq, or_false, List.not_mem_nil,
+            false_or] at hj
+          rcases hj with hj | hj
+          · exact Or.inl hj
+          · exact Or.inr hj
+        · intro ev hev; simp [hev]
+      | some p =>
+        obtain ⟨c', u⟩ := p
+        simp only at h
+        by_cases hcur : (if sst ≠ .running then os.head?.map Node.id else scur) = some c'.id
+        · simp only [hcur, ↓reduceIte, Except.ok.injEq, Prod.mk.injEq] at h
+          obtain ⟨h1, h2, h3⟩ := h
+          subst h1 h2 h3
+          refine ⟨f, failed, _, trl, rfl, hl, ?_, ?_, by simp, Or.inr ⟨c', u, u, rfl, by simp, Or.inl ⟨rfl, hcur⟩⟩⟩
+          · intro j hj
+            simp only [List.mem_append, List.mem_cons, Ev.enter.injEq, reduceCtorEq, or_false, List.not_mem_nil,
+              false_or] at hj
+            rcases hj with hj | hj
+            · exact Or.inl hj
+            · exact Or.inr hj
+          · intro ev hev; simp [hev]
+        · simp only [hcur, ↓reduceIte, Except.ok.injEq, Prod.mk.injEq] at h
+          obtain ⟨h1, h2, h3⟩ := h
+          subst h1 h2 h3
+          refine ⟨f, failed, _, trl, rfl, hl, ?_, ?_, by simp,
+            Or.inr ⟨c', u, (stopInvNonInvalid u).1, rfl, by simp, Or.inr rfl⟩⟩
+          · intro j hj
+            simp only [List.mem_append, List.mem_cons, Ev.enter.injEq, reduceCtorEq, or_false, List.not_mem_nil,
+              false_or] at hj
+            rcases hj with (hj | hj) | hj
+            · exact Or.inl hj
+            · exact Or.inr hj
+            · exact (stopInvNonInvalid_noEnter u j hj).elim
+          · intro ev hev; simp [hev]
+
+theorem optOK_stopInv (c : Node) : optOK (stopInv c).1 = true := by
+  cases c with
+  | seq i m s cur cs =>
+    simp only [stopInv]
+    match (stopInvNonInvalid cs).1 with
+    | [] => simp [optOK]
+    | [a] => simp [optOK]
+    | [a, b] => simp [optOK]
+    | a :: b :: c :: rest => simp [optOK]
+  | _ => simp [stopInv, optOK]
+
+theorem stopInvNonInvalid_facts : ∀ (cs : List Node), (∀ c ∈ cs, optOK c = true) →
+    ∀ c ∈ (stopInvNonInvalid cs).1, optOK c = true ∧ c.status = .invalid
+| [], _, c, hc => by simp [stopInvNonInvalid] at hc
+| a :: cs, h, c, hc => by
+    simp only [stopInvNonInvalid, List.mem_cons] at hc
+    rcases hc with rfl | hc
+    · split
+      · exact ⟨optOK_stopInv a, stopInv_status a⟩
+      · rename_i hs
+        simp only [ne_eq, Decidable.not_not] at hs
+        exact ⟨h a (by simp), hs⟩
+    · exact stopInvNonInvalid_facts cs (fun x hx => h x (by simp [hx])) c hc
+
+theorem optsAre_ids : ∀ (opts : List Opt) (ns : List Node), AllRel IsOpt opts ns → ns.map Node.id = opts.map Opt.oid
+| [], [], _ => rfl
+| [], _ :: _, h => by simp [AllRel] at h
+| _ :: _, [], h => by simp [AllRel] at h
+| o :: os, c :: cs, h => by
+    simp only [AllRel] at h
+    simp [isOpt_id h.1, optsAre_ids os cs h.2]
+
+theorem oids_nodup : ∀ (opts : List Opt), (Skel.idsL (opts.map optSkel)).Nodup → (opts.map Opt.oid).Nodup
+| [], _ => by simp
+| o :: os, h => by
+    simp only [List.map_cons, List.nodup_cons, List.mem_map, not_exists, not_and]
+    refine ⟨?_, oids_nodup os (tail_nodup o os h)⟩
+    intro x hx heq
+    exact head_ids_disjoint o os h o.oid (oid_mem_opt o) ((mem_idsL_opts os _).mpr ⟨x, hx, by rw [← heq]; exact oid_mem_opt x⟩)
+
+theorem nodes_ids_nodup {opts : List Opt} {ns : List Node} (hrel : AllRel IsOpt opts ns)
+    (hnd : (Skel.idsL (opts.map optSkel)).Nodup) : (ns.map Node.id).Nodup := by
+  rw [optsAre_ids opts ns hrel]; exact oids_nodup opts hnd
+
+end C18c
+
+namespace C18c
+open C18b
+
+/-- **one tick of the chooser** over options in sane states, in which a RUNNING option is the one the chooser
+    remembers (`hP`).  The store is untouched; `done` are the options ticked before the selected one (all returned
+    FAILURE/INVALID); either every option failed, or option `o` (node `c0` before, `c'` after) was selected. -/
+theorem chooser_tick (opts : List Opt) (sid : Nat) (sst : Status) (scur : Option Nat) (os : List Node)
+    (hrel : AllRel IsOpt opts os) (hne : opts ≠ []) (hnb : ∀ o ∈ opts, noBB o.task = true)
+    (hnd : (Skel.idsL (opts.map optSkel)).Nodup) (hsid : sid ∉ Skel.idsL (opts.map optSkel))
+    (hok : ∀ c ∈ os, optOK c = true)
+    (hP : ∀ c ∈ os, c.status = .running → sst = .running ∧ scur = some c.id)
+    (f : Nat) (e : Env) (w : Store) (S' : Node) (w' : Store) (tr : List Ev)
+    (h : tickF f e w (sel sid false sst scur os) = .ok (S', w', tr)) :
+    w' = w ∧ Ev.enter sid ∈ tr ∧
+    (∀ j, Ev.enter j ∈ tr → j = sid ∨ j ∈ Skel.idsL (opts.map optSkel)) ∧
+    (∀ o ∈ opts, Ev.enter o.task.id ∈ tr → ∃ c ∈ os, IsOpt o c ∧ Elig w o c) ∧
+    (∀ o ∈ opts, Ev.enter o.gid ∈ tr → ∃ c ∈ os, IsOpt o c ∧ c.status ≠ .running) ∧
+    ∃ sst' scur' os', S' = sel sid false sst' scur' os' ∧ AllRel IsOpt opts os' ∧ (∀ c ∈ os', optOK c = true) ∧
+      ∃ o1 o2 n1 n2 done, opts = o1 ++ o2 ∧ os = n1 ++ n2 ∧ AllRel IsOpt o1 n1 ∧ AllRel IsOpt o1 done ∧
+        AllRel IsOpt o2 n2 ∧ (∀ d ∈ done, d.status ≠ .running ∧ d.status ≠ .success) ∧
+        (∀ o ∈ o1, ∀ c ∈ n1, IsOpt o c →
+          (Elig w o c → ∃ d ∈ done, IsOpt o d ∧ ∃ t0, skel t0 = skel o.task ∧ TaskTick e w tr d.status t0) ∧
+          (c.status ≠ .running → Ev.enter o.gid ∈ tr)) ∧
+        ((sst' = .failure ∧ o2 = [] ∧ os' = done) ∨
+         (∃ c' tail o b c0 u, o2 = o :: b ∧ n2 = c0 :: u ∧ os' = done ++ c' :: tail ∧ sst' = c'.status ∧
+            scur' = some o.oid ∧ IsOpt o c0 ∧ IsOpt o c' ∧ (c'.status = .running ∨ c'.status = .success) ∧
+            Elig w o c0 ∧ (∃ t0, skel t0 = skel o.task ∧ TaskTick e w tr c'.status t0) ∧
+            (c0.status = .running → Ev.enter o.gid ∉ tr) ∧ (c0.status ≠ .running → Ev.enter o.gid ∈ tr) ∧
+            (∀ x ∈ b, Ev.enter x.task.id ∉ tr ∧ Ev.enter x.gid ∉ tr ∧ Ev.enter x.oid ∉ tr) ∧
+            (∀ d ∈ tail, d.status ≠ .running))) := by
+  have hosne : os ≠ [] := by
+    intro h0; subst h0
+    exact hne (allRel_nil_right IsOpt opts hrel)
+  have hskS := tickF_skel e f w _ S' w' tr h
+  obtain ⟨f', failed, r, trl, rfl, hl, hent, hsub, hself, hshape⟩ :=
+    sel_tick_inv f e w sid sst scur os S' w' tr hosne h
+  obtain ⟨hw', hdone, hA, hA', o1, o2, n1, n2, hos, hcs, hr1, hr2, hr3, hB, hC⟩ :=
+    optsLoop f' e opts os w failed r w' trl hrel hnb hnd hok hl
+  have henl : Enters (Skel.idsL (opts.map optSkel)) trl := by
+    have := selLoop_enters (tickF f' e) (fun w c c' w' tr h => tickF_enters e f' w c c' w' tr h) os w failed r w' trl hl
+    rwa [(optsAre_iff opts os).mp hrel] at this
+  -- an `enter` of an option id in the chooser's trace is in the loop's trace
+  have hin_l : ∀ j, j ∈ Skel.idsL (opts.map optSkel) → Ev.enter j ∈ tr → Ev.enter j ∈ trl := by
+    intro j hj hin
+    rcases hent j hin with h1 | h1
+    · subst h1; exact absurd hj hsid
+    · exact h1
+  have hmem : ∀ o ∈ opts, ∀ y ∈ (optSkel o).ids, y ∈ Skel.idsL (opts.map optSkel) :=
+    fun o ho y hy => (mem_idsL_opts opts y).mpr ⟨o, ho, hy⟩
+  have hidn := nodes_ids_nodup hrel hnd
+  refine ⟨hw', hself, ?_, ?_, ?_, ?_⟩
+  · intro j hj
+    rcases hent j hj with h1 | h1
+    · exact Or.inl h1
+    · exact Or.inr (henl j h1)
+  · intro o ho hin
+    exact hA o ho (hin_l _ (hmem o ho _ (task_id_mem_opt o)) hin)
+  · intro o ho hin
+    exact hA' o ho (hin_l _ (hmem o ho _ (gid_mem_opt o)) hin)
+  · have hB' : ∀ o ∈ o1, ∀ c ∈ n1, IsOpt o c →
+        (Elig w o c → ∃ d ∈ failed, IsOpt o d ∧ ∃ t0, skel t0 = skel o.task ∧ TaskTick e w tr d.status t0) ∧
+        (c.status ≠ .running → Ev.enter o.gid ∈ tr) := by
+      intro o ho c hc hoc
+      obtain ⟨h1, h2⟩ := hB o ho c hc hoc
+      refine ⟨fun hel => ?_, fun hr => hsub _ (h2 hr)⟩
+      obtain ⟨d, hd, hod, t0, ht0, hTT⟩ := h1 hel
+      exact ⟨d, hd, hod, t0, ht0, hTT.mono hsub⟩
+    rcases hshape with ⟨rfl, rfl⟩ | ⟨c', u, tail, rfl, rfl, htail⟩
+    · rcases hC with ⟨_, ho2⟩ | ⟨c', u, o, b, c0, h1, _⟩
+      · have hrel' : AllRel IsOpt opts failed := by
+          rw [optsAre_iff]
+          simp only [skel, Skel.sel.injEq, true_and] at hskS
+          rw [hskS]; exact (optsAre_iff opts os).mp hrel
+        exact ⟨.failure, _, failed, rfl, hrel', fun c hc => (hdone c hc).1, o1, o2, n1, n2, failed, hos, hcs, hr1, hr2,
+          hr3, fun d hd => (hdone d hd).2, hB', Or.inl ⟨rfl, ho2, rfl⟩⟩
+      · cases h1
+    · rcases hC with ⟨h1, _⟩ | ⟨c'', u', o, b, c0, h1, ho2, hn2, hoc0, hoc', hokc', hst', hel, ⟨t0, ht0, hTT⟩, hg1, hg2, hb⟩
+      · cases h1
+      · simp only [Option.some.injEq, Prod.mk.injEq] at h1
+        obtain ⟨rfl, rfl⟩ := h1
+        have hrel' : AllRel IsOpt opts (failed ++ c' :: tail) := by
+          rw [optsAre_iff]
+          simp only [skel, Skel.sel.injEq, true_and] at hskS
+          rw [hskS]; exact (optsAre_iff opts os).mp hrel
+        have hoin : o ∈ opts := by rw [hos, ho2]; simp
+        have hbin : ∀ x ∈ b, x ∈ opts := fun x hx => by rw [hos, ho2]; simp [hx]
+        have huin : ∀ d ∈ u, d ∈ os := fun d hd => by rw [hcs, hn2]; simp [hd]
+        have htailf : ∀ d ∈ tail, optOK d = true ∧ d.status ≠ .running := by
+          intro d hd
+          rcases htail with ⟨rfl, hcur⟩ | rfl
+          · refine ⟨hok d (huin d hd), ?_⟩
+            intro hrun
+            obtain ⟨hs, hsc⟩ := hP d (huin d hd) hrun
+            simp only [hs, ne_eq, not_true_eq_false, ↓reduceIte, hsc, Option.some.injEq] at hcur
+            have hid : d.id = c0.id := by rw [hcur, isOpt_id hoc', isOpt_id hoc0]
+            rw [hcs, hn2, List.map_append, List.map_cons, List.nodup_append] at hidn
+            have := hidn.2.1
+            simp only [List.nodup_cons, List.mem_map, not_exists, not_and] at this
+            exact this.1 d hd hid
+          · obtain ⟨g1, g2⟩ := stopInvNonInvalid_facts u (fun x hx => hok x (huin x hx)) d hd
+            exact ⟨g1, by rw [g2]; simp⟩
+        refine ⟨c'.status, some c'.id, failed ++ c' :: tail, rfl, hrel', ?_, o1, o2, n1, n2, failed, hos, hcs, hr1, hr2,
+          hr3, fun d hd => (hdone d hd).2, hB', Or.inr ⟨c', tail, o, b, c0, u, ho2, hn2, rfl, rfl,
+            by rw [isOpt_id hoc'], hoc0, hoc', hst', hel, ⟨t0, ht0, hTT.mono hsub⟩, ?_, fun hr => hsub _ (hg2 hr), ?_,
+            fun d hd => (htailf d hd).2⟩⟩
+        · intro c hc
+          simp only [List.mem_append, List.mem_cons] at hc
+          rcases hc with hc | rfl | hc
+          · exact (hdone c hc).1
+          · exact hokc'
+          · exact (htailf c hc).1
+        · intro hr hin
+          exact hg1 hr (hin_l _ (hmem o hoin _ (gid_mem_opt o)) hin)
+        · intro x hx
+          obtain ⟨g1, g2, g3⟩ := hb x hx
+          exact ⟨fun hin => g1 (hin_l _ (hmem x (hbin x hx) _ (task_id_mem_opt x)) hin),
+            fun hin => g2 (hin_l _ (hmem x (hbin x hx) _ (gid_mem_opt x)) hin),
+            fun hin => g3 (hin_l _ (hmem x (hbin x hx) _ (oid_mem_opt x)) hin)⟩
+
+end C18c
+
+namespace C18c
+open C18b
+
+/-- option-level eligibility: `act` is the option the chooser is RUNNING at (if any); the subtree of `o` will be ticked
+    when the chooser reaches it iff `o` is that option or its flag is set -/
+def EligO (act : Option Opt) (w : Store) (o : Opt) : Prop := act = some o ∨ flagOn w o.flag
+
+/-- **one tick of the chooser, in terms of the options**.  `act` = the option that is RUNNING (none: no option is). -/
+theorem chooser_tick_act (opts : List Opt) (sid : Nat) (sst : Status) (scur : Option Nat) (os : List Node)
+    (hrel : AllRel IsOpt opts os) (hne : opts ≠ []) (hnb : ∀ o ∈ opts, noBB o.task = true)
+    (hnd : (Skel.idsL (opts.map optSkel)).Nodup) (hsid : sid ∉ Skel.idsL (opts.map optSkel))
+    (hok : ∀ c ∈ os, optOK c = true) (act : Option Opt)
+    (hact : ∀ o ∈ opts, ∀ c ∈ os, IsOpt o c → (c.status = .running ↔ act = some o))
+    (hP : ∀ oj, act = some oj → sst = .running ∧ scur = some oj.oid)
+    (f : Nat) (e : Env) (w : Store) (S' : Node) (w' : Store) (tr : List Ev)
+    (h : tickF f e w (sel sid false sst scur os) = .ok (S', w', tr)) :
+    w' = w ∧ Ev.enter sid ∈ tr ∧
+    (∀ j, Ev.enter j ∈ tr → j = sid ∨ j ∈ Skel.idsL (opts.map optSkel)) ∧
+    (∀ o ∈ opts, Ev.enter o.task.id ∈ tr → EligO act w o) ∧
+    (∀ o ∈ opts, Ev.enter o.gid ∈ tr → act ≠ some o) ∧
+    ∃ sst' scur' os', S' = sel sid false sst' scur' os' ∧ AllRel IsOpt opts os' ∧ (∀ c ∈ os', optOK c = true) ∧
+      ∃ o1 o2, opts = o1 ++ o2 ∧
+        (∀ o ∈ o1,
+          (EligO act w o → ∃ st t0, st ≠ .running ∧ st ≠ .success ∧ skel t0 = skel o.task ∧ TaskTick e w tr st t0) ∧
+          (act ≠ some o → Ev.enter o.gid ∈ tr)) ∧
+        ((sst' = .failure ∧ o2 = [] ∧ ∀ d ∈ os', d.status ≠ .running) ∨
+         (∃ o b c', o2 = o :: b ∧ c' ∈ os' ∧ IsOpt o c' ∧ sst' = c'.status ∧ scur' = some o.oid ∧
+            (sst' = .running ∨ sst' = .success) ∧ EligO act w o ∧
+            (∃ t0, skel t0 = skel o.task ∧ TaskTick e w tr sst' t0) ∧
+            (act ≠ some o → Ev.enter o.gid ∈ tr) ∧ (act = some o → Ev.enter o.gid ∉ tr) ∧
+            (∀ x ∈ b, Ev.enter x.task.id ∉ tr ∧ Ev.enter x.gid ∉ tr ∧ Ev.enter x.oid ∉ tr) ∧
+            (∀ d ∈ os', d.status = .running → d = c'))) := by
+  have hP' : ∀ c ∈ os, c.status = .running → sst = .running ∧ scur = some c.id := by
+    intro c hc hr
+    obtain ⟨o, ho, hoc⟩ := allRel_mem_right IsOpt opts os hrel c hc
+    obtain ⟨h1, h2⟩ := hP o ((hact o ho c hc hoc).mp hr)
+    exact ⟨h1, by rw [h2, isOpt_id hoc]⟩
+  obtain ⟨hw', hself, hen, hA, hA', sst', scur', os', rfl, hrel', hok', o1, o2, n1, n2, done, hos, hcs, hr1, hr2, hr3,
+    hdone, hB, hC⟩ := chooser_tick opts sid sst scur os hrel hne hnb hnd hsid hok hP' f e w S' w' tr h
+  have hn1 : ∀ c ∈ n1, c ∈ os := fun c hc => by rw [hcs]; exact List.mem_append_left _ hc
+  have ho1 : ∀ o ∈ o1, o ∈ opts := fun o ho => by rw [hos]; exact List.mem_append_left _ ho
+  have helig : ∀ o ∈ opts, ∀ c ∈ os, IsOpt o c → (Elig w o c ↔ EligO act w o) := by
+    intro o ho c hc hoc
+    simp only [Elig, EligO, hact o ho c hc hoc]
+  refine ⟨hw', hself, hen, ?_, ?_, sst', scur', os', rfl, hrel', hok', o1, o2, hos, ?_, ?_⟩
+  · intro o ho hin
+    obtain ⟨c, hc, hoc, hel⟩ := hA o ho hin
+    exact (helig o ho c hc hoc).mp hel
+  · intro o ho hin
+    obtain ⟨c, hc, hoc, hr⟩ := hA' o ho hin
+    intro ha
+    exact hr ((hact o ho c hc hoc).mpr ha)
+  · intro o ho
+    obtain ⟨c, hc, hoc⟩ := allRel_mem_left IsOpt o1 n1 hr1 o ho
+    obtain ⟨h1, h2⟩ := hB o ho c hc hoc
+    refine ⟨fun hel => ?_, fun ha => h2 (fun hr => ha ((hact o (ho1 o ho) c (hn1 c hc) hoc).mp hr))⟩
+    obtain ⟨d, hd, hod, t0, ht0, hTT⟩ := h1 ((helig o (ho1 o ho) c (hn1 c hc) hoc).mpr hel)
+    exact ⟨d.status, t0, (hdone d hd).1, (hdone d hd).2, ht0, hTT⟩
+  · rcases hC with ⟨h1, h2, h3⟩ | ⟨c', tail, o, b, c0, u, ho2, hn2, hos', hst', hcur', hoc0, hoc', hrs, hel, hTT, hg1, hg2,
+      hb, htl⟩
+    · left
+      exact ⟨h1, h2, fun d hd => by rw [h3] at hd; exact (hdone d hd).1⟩
+    · right
+      have hoin : o ∈ opts := by rw [hos, ho2]; simp
+      have hc0in : c0 ∈ os := by rw [hcs, hn2]; simp
+      refine ⟨o, b, c', ho2, by rw [hos']; simp, hoc', hst', hcur', by rw [hst']; exact hrs,
+        (helig o hoin c0 hc0in hoc0).mp hel, by rw [hst']; exact hTT,
+        fun ha => hg2 (fun hr => ha ((hact o hoin c0 hc0in hoc0).mp hr)),
+        fun ha => hg1 ((hact o hoin c0 hc0in hoc0).mpr ha), hb, ?_⟩
+      intro d hd hr
+      rw [hos'] at hd
+      simp only [List.mem_append, List.mem_cons] at hd
+      rcases hd with hd | hd | hd
+      · exact absurd hr (hdone d hd).1
+      · exact hd
+      · exact absurd hr (htl d hd)
+
+end C18c
+
+namespace C18c
+open C18b
+
+/-! ## 4. the whole idiom -/
+
+/-- side conditions of an instance: blackboard-free subtrees, pairwise distinct flags, one condition per option, at
+    least two options, pairwise distinct ids (root, XOR leaf, chooser, option nodes, subtree-internal nodes), and the
+    conditions do not read the idiom's own flags -/
+def EitherOrOK (conds : List Check) (opts : List Opt) (rid xid sid : Nat) : Prop :=
+  (∀ o ∈ opts, noBB o.task = true) ∧ (opts.map Opt.flag).Nodup ∧ conds.length = opts.length ∧ 2 ≤ opts.length ∧
+  (eoSkel conds opts rid xid sid).ids.Nodup ∧ (∀ c ∈ conds, c.key ∉ opts.map Opt.flag)
+
+theorem eoSkel_ids (conds : List Check) (opts : List Opt) (rid xid sid : Nat) :
+    (eoSkel conds opts rid xid sid).ids = rid :: xid :: sid :: Skel.idsL (opts.map optSkel) := by
+  simp [eoSkel, Skel.ids, Skel.idsL]
+
+theorem EitherOrOK.ids {conds : List Check} {opts : List Opt} {rid xid sid : Nat}
+    (h : EitherOrOK conds opts rid xid sid) :
+    (Skel.idsL (opts.map optSkel)).Nodup ∧ sid ∉ Skel.idsL (opts.map optSkel) ∧
+    xid ∉ Skel.idsL (opts.map optSkel) ∧ rid ∉ Skel.idsL (opts.map optSkel) ∧ xid ≠ sid ∧ rid ≠ xid ∧ rid ≠ sid := by
+  have h5 := h.2.2.2.2.1
+  rw [eoSkel_ids] at h5
+  simp only [List.nodup_cons, List.mem_cons, not_or] at h5
+  exact ⟨h5.2.2.2, h5.2.2.1, h5.2.1.2, h5.1.2.2, h5.2.1.1, h5.1.1, h5.1.2.1⟩
+
+theorem EitherOrOK.ne {conds : List Check} {opts : List Opt} {rid xid sid : Nat}
+    (h : EitherOrOK conds opts rid xid sid) : opts ≠ [] := by
+  intro h0
+  have := h.2.2.2.1
+  rw [h0] at this
+  simp at this
+
+/-- **the state invariant** of an instance: every option is sane; when the root is not RUNNING no option is; when the
+    root is RUNNING it remembers the chooser, the chooser is RUNNING and remembers an option `oj`, that option is RUNNING
+    and no other option is.  True of a fresh instance, kept by ticks, interrupts and pokes. -/
+def EOInv (opts : List Opt) : Node → Prop
+| seq _ _ rst rcur [_, sel sid _ sst scur os] =>
+    (∀ c ∈ os, optOK c = true) ∧
+    (rst ≠ .running → ∀ c ∈ os, c.status ≠ .running) ∧
+    (rst = .running → rcur = some sid ∧ sst = .running ∧
+       ∃ oj ∈ opts, scur = some oj.oid ∧ (∃ c ∈ os, IsOpt oj c ∧ c.status = .running) ∧
+         ∀ c ∈ os, c.status = .running → c.id = oj.oid)
+| _ => True
+
+/-- the id of the option the chooser remembers -/
+def chosenId : Node → Option Nat
+| seq _ _ _ _ [_, sel _ _ _ scur _] => scur
+| _ => none
+
+/-- what a tick of the chooser did, in terms of the options (`act`: the option that was RUNNING, if any; `st'`: the
+    status the chooser — and hence the root — returned) -/
+def ChooserOut (opts : List Opt) (sid : Nat) (e : Env) (act : Option Opt) (w : Store) (st' : Status) (tr : List Ev)
+    (ch' : Option Nat) : Prop :=
+  Ev.enter sid ∈ tr ∧
+  (∀ o ∈ opts, Ev.enter o.task.id ∈ tr → EligO act w o) ∧
+  (∀ o ∈ opts, Ev.enter o.gid ∈ tr → act ≠ some o) ∧
+  ∃ o1 o2, opts = o1 ++ o2 ∧
+    (∀ o ∈ o1,
+      (EligO act w o → ∃ st t0, st ≠ .running ∧ st ≠ .success ∧ skel t0 = skel o.task ∧ TaskTick e w tr st t0) ∧
+      (act ≠ some o → Ev.enter o.gid ∈ tr)) ∧
+    ((st' = .failure ∧ o2 = []) ∨
+     (∃ o b, o2 = o :: b ∧ (st' = .running ∨ st' = .success) ∧ ch' = some o.oid ∧ EligO act w o ∧
+        (∃ t0, skel t0 = skel o.task ∧ TaskTick e w tr st' t0) ∧
+        (act ≠ some o → Ev.enter o.gid ∈ tr) ∧ (act = some o → Ev.enter o.gid ∉ tr) ∧
+        (∀ x ∈ b, Ev.enter x.task.id ∉ tr ∧ Ev.enter x.gid ∉ tr ∧ Ev.enter x.oid ∉ tr)))
+
+/-- the XOR leaf, one tick -/
+theorem xor_tick (e : Env) (w : Store) (x : Nat) (xs : Status) (xl : List LEv) (conds : List Check)
+    (keys : List String) (X' : Node) (w1 : Store) (trx : List Ev)
+    (h : leafTick e w x xs (.checkValues conds .xor (some keys)) xl = .ok (X', w1, trx)) :
+    Enters [x] trx ∧ Ev.enter x ∈ trx ∧
+    ((evalChecks w conds = .ok none ∧ w1 = w ∧ X'.status = .failure) ∨
+     (∃ rs, evalChecks w conds = .ok (some rs) ∧ w1 = publishResults w keys rs ∧
+        X'.status = if reduceLogic .xor rs then .success else .failure)) := by
+  have hen := leafTick_enters e w x xs _ xl X' w1 trx h
+  have hself : Ev.enter x ∈ trx := by
+    have := tickF_enter_self e 1 w (leaf x xs (.checkValues conds .xor (some keys)) xl) X' w1 trx
+      (by simp only [tickF]; exact h)
+    simpa [Node.id] using this
+  refine ⟨hen, hself, ?_⟩
+  simp only [leafTick, leafInit, ite_self, bind, Except.bind] at h
+  cases hev : evalChecks w conds with
+  | error err => simp [leafUpdate, hev, bind, Except.bind] at h
+  | ok v =>
+    cases v with
+    | none =>
+      rw [C18_eo_flags_missing x e w conds keys hev] at h
+      simp only [pure, Except.pure, Except.ok.injEq, Prod.mk.injEq] at h
+      obtain ⟨h1, h2, _⟩ := h
+      subst h1 h2
+      exact Or.inl ⟨rfl, rfl, rfl⟩
+    | some rs =>
+      rw [C18_eo_flags_written x e w conds keys rs hev] at h
+      simp only [pure, Except.pure, Except.ok.injEq, Prod.mk.injEq] at h
+      obtain ⟨h1, h2, _⟩ := h
+      subst h1 h2
+      exact Or.inr ⟨rs, rfl, rfl, rfl⟩
+
+theorem evalChecks_length (w : Store) : ∀ (cs : List Check) (rs : List Bool), evalChecks w cs = .ok (some rs) →
+    rs.length = cs.length
+| [], rs, h => by
+    simp only [evalChecks, pure, Except.pure, Except.ok.injEq, Option.some.injEq] at h
+    subst h; rfl
+| c :: cs, rs, h => by
+    simp only [evalChecks] at h
+    split at h
+    · simp [pure, Except.pure] at h
+    · simp only [bind, Except.bind] at h
+      split at h
+      · simp at h
+      · rename_i r hr
+        cases hcs : evalChecks w cs with
+        | error err => simp [hcs] at h
+        | ok v =>
+          cases v with
+          | none => simp [hcs, pure, Except.pure] at h
+          | some rs' =>
+            simp only [hcs, pure, Except.pure, Except.ok.injEq, Option.some.injEq] at h
+            subst h
+            simp [evalChecks_length w cs rs' hcs]
+
+/-- the conditions' verdict only depends on the variables they read -/
+theorem evalChecks_congr (w w2 : Store) : ∀ (cs : List Check), (∀ c ∈ cs, w2 c.key = w c.key) →
+    evalChecks w2 cs = evalChecks w cs
+| [], _ => rfl
+| c :: cs, h => by
+    have h1 : w2.getPath c.key c.path = w.getPath c.key c.path := by
+      simp only [Store.getPath, h c (by simp)]
+    simp only [evalChecks, h1, evalChecks_congr w w2 cs (fun x hx => h x (by simp [hx]))]
+
+/-- the chooser after the entry reset of the root (root not RUNNING) -/
+theorem chooser_reset (opts : List Opt) (sid : Nat) (sst : Status) (scur : Option Nat) (os : List Node)
+    (hrel : AllRel IsOpt opts os) (hok : ∀ c ∈ os, optOK c = true) (hnr : ∀ c ∈ os, c.status ≠ .running) :
+    ∃ sst0 scur0 os0,
+      (if ¬ (sel sid false sst scur os).status = .invalid then (stopInv (sel sid false sst scur os)).1
+        else sel sid false sst scur os) = sel sid false sst0 scur0 os0 ∧
+      AllRel IsOpt opts os0 ∧ (∀ c ∈ os0, optOK c = true) ∧ (∀ c ∈ os0, c.status ≠ .running) := by
+  split
+  · refine ⟨.invalid, none, (stopInvNonInvalid os).1, by simp [stopInv], ?_, ?_, ?_⟩
+    · rw [optsAre_iff, stopInvNonInvalid_skelL]; exact (optsAre_iff opts os).mp hrel
+    · exact fun c hc => (stopInvNonInvalid_facts os hok c hc).1
+    · intro c hc
+      rw [(stopInvNonInvalid_facts os hok c hc).2]; simp
+  · exact ⟨sst, scur, os, rfl, hrel, hok, hnr⟩
+
+end C18c
+
+namespace C18c
+open C18b
+
+/-- the Sequence loop over a single child -/
+theorem seqLoop_single (T : Tick) (w : Store) (c : Node) (done : List Node) (r : Option (Node × List Node))
+    (w' : Store) (trl : List Ev) (h : seqLoop T w [c] = .ok (done, r, w', trl)) :
+    ∃ c1 tr1, T w c = .ok (c1, w', tr1) ∧ (∀ ev ∈ tr1, ev ∈ trl) ∧ (∀ ev ∈ trl, ev ∈ tr1) ∧
+      ((c1.status ≠ .success ∧ done = [] ∧ r = some (c1, [])) ∨ (c1.status = .success ∧ done = [c1] ∧ r = none)) := by
+  obtain ⟨c1, w1, tr1, hT, hcase⟩ := seqLoop_cons_inv _ _ _ _ _ _ _ _ h
+  rcases hcase with ⟨hns, h1, h2, h3, h4⟩ | ⟨hs, d, tr3, hl, h1, h2⟩
+  · subst h1 h2 h3 h4
+    exact ⟨c1, _, hT, fun _ h => h, fun _ h => h, Or.inl ⟨hns, rfl, rfl⟩⟩
+  · simp only [seqLoop, pure, Except.pure, Except.ok.injEq, Prod.mk.injEq] at hl
+    obtain ⟨h5, h6, h7, h8⟩ := hl
+    subst h1 h2 h5 h6 h7 h8
+    exact ⟨c1, _, hT, fun _ h => by simp [h], fun _ h => by simpa using h, Or.inr ⟨hs, rfl, rfl⟩⟩
+
+/-- from the chooser's tick to the root: the invariant of the new state and the option-level account of the tick -/
+theorem root_finish (opts : List Opt) (sid : Nat) (sst : Status) (scur : Option Nat) (os : List Node)
+    (hrel : AllRel IsOpt opts os) (hne : opts ≠ []) (hnb : ∀ o ∈ opts, noBB o.task = true)
+    (hnd : (Skel.idsL (opts.map optSkel)).Nodup) (hsid : sid ∉ Skel.idsL (opts.map optSkel))
+    (hok : ∀ c ∈ os, optOK c = true) (act : Option Opt)
+    (hact : ∀ o ∈ opts, ∀ c ∈ os, IsOpt o c → (c.status = .running ↔ act = some o))
+    (hP : ∀ oj, act = some oj → sst = .running ∧ scur = some oj.oid)
+    (f : Nat) (e : Env) (w : Store) (S' : Node) (w' : Store) (trS : List Ev)
+    (h : tickF f e w (sel sid false sst scur os) = .ok (S', w', trS))
+    (rid : Nat) (X' : Node) (st' : Status) (cur' : Option Nat) (tr : List Ev)
+    (hst : st' = S'.status) (hcur : st' ≠ .success → cur' = some sid)
+    (hin : ∀ j ∈ Skel.idsL (opts.map optSkel), Ev.enter j ∈ tr → Ev.enter j ∈ trS)
+    (hsub : ∀ ev ∈ trS, ev ∈ tr) :
+    w' = w ∧ EOInv opts (seq rid true st' cur' [X', S']) ∧
+    ChooserOut opts sid e act w st' tr (chosenId (seq rid true st' cur' [X', S'])) := by
+  obtain ⟨hw', hself, hen, hA, hA', sst', scur', os', rfl, hrel', hok', o1, o2, hos, hB, hC⟩ :=
+    chooser_tick_act opts sid sst scur os hrel hne hnb hnd hsid hok act hact hP f e w S' w' trS h
+  have hmem : ∀ o ∈ opts, ∀ y ∈ (optSkel o).ids, y ∈ Skel.idsL (opts.map optSkel) :=
+    fun o ho y hy => (mem_idsL_opts opts y).mpr ⟨o, ho, hy⟩
+  simp only [Node.status] at hst
+  subst hst
+  refine ⟨hw', ?_, hsub _ hself, ?_, ?_, o1, o2, hos, ?_, ?_⟩
+  · simp only [EOInv]
+    refine ⟨hok', ?_, ?_⟩
+    · intro hnr c hc hr
+      rcases hC with ⟨_, _, h3⟩ | ⟨o, b, c', _, _, _, hst', _, _, _, _, _, _, _, hall⟩
+      · exact h3 c hc hr
+      · have := hall c hc hr
+        subst this
+        exact hnr (by rw [hst']; exact hr)
+    · intro hr
+      rcases hC with ⟨h1, _, _⟩ | ⟨o, b, c', ho2, hc', hoc', hst', hcur', _, _, _, _, _, _, hall⟩
+      · rw [h1] at hr; cases hr
+      · refine ⟨hcur (by rw [hr]; simp), hr, o, by rw [hos, ho2]; simp, hcur', ⟨c', hc', hoc', by rw [← hst']; exact hr⟩, ?_⟩
+        intro c hc hrc
+        rw [hall c hc hrc, isOpt_id hoc']
+  · intro o ho hin'
+    exact hA o ho (hin _ (hmem o ho _ (task_id_mem_opt o)) hin')
+  · intro o ho hin'
+    exact hA' o ho (hin _ (hmem o ho _ (gid_mem_opt o)) hin')
+  · intro o ho
+    obtain ⟨h1, h2⟩ := hB o ho
+    refine ⟨fun hel => ?_, fun ha => hsub _ (h2 ha)⟩
+    obtain ⟨st, t0, g1, g2, g3, hTT⟩ := h1 hel
+    exact ⟨st, t0, g1, g2, g3, hTT.mono hsub⟩
+  · rcases hC with ⟨h1, h2, _⟩ | ⟨o, b, c', ho2, hc', hoc', hst', hcur', hrs, hel, ⟨t0, ht0, hTT⟩, hg2, hg1, hb, hall⟩
+    · exact Or.inl ⟨h1, h2⟩
+    · right
+      have hoin : o ∈ opts := by rw [hos, ho2]; simp
+      have hbin : ∀ x ∈ b, x ∈ opts := fun x hx => by rw [hos, ho2]; simp [hx]
+      refine ⟨o, b, ho2, hrs, hcur', hel, ⟨t0, ht0, hTT.mono hsub⟩, fun ha => hsub _ (hg2 ha),
+        fun ha hin' => hg1 ha (hin _ (hmem o hoin _ (gid_mem_opt o)) hin'), ?_⟩
+      intro x hx
+      obtain ⟨g1, g2, g3⟩ := hb x hx
+      exact ⟨fun hin' => g1 (hin _ (hmem x (hbin x hx) _ (task_id_mem_opt x)) hin'),
+        fun hin' => g2 (hin _ (hmem x (hbin x hx) _ (gid_mem_opt x)) hin'),
+        fun hin' => g3 (hin _ (hmem x (hbin x hx) _ (oid_mem_opt x)) hin')⟩
+
+end C18c
+
+namespace C18c
+open C18b
+
+/-- the entry reset of the root on its two children -/
+theorem entry_split (xid : Nat) (xst : Status) (K : LeafKind) (xlog : List LEv) (S : Node) :
+    ∃ xst' xlog', (stopInvNonInvalid [leaf xid xst K xlog, S]).1 =
+      [leaf xid xst' K xlog', if ¬ S.status = .invalid then (stopInv S).1 else S] := by
+  have hls : ∀ x, (leaf xid x K xlog).status = x := fun _ => rfl
+  by_cases h1 : S.status = .invalid <;> by_cases h2 : xst = .invalid <;>
+    simp [stopInvNonInvalid, stopInv, hls, h1, h2]
+
+/-- only the root and the XOR leaf were entered -/
+def OnlyRX (rid xid : Nat) (tr : List Ev) : Prop := ∀ j, Ev.enter j ∈ tr → j = rid ∨ j = xid
+
+/-- what a tick of the idiom that starts afresh (root not RUNNING) does -/
+def FreshOut (conds : List Check) (opts : List Opt) (rid xid sid : Nat) (e : Env) (w : Store) (st' : Status)
+    (w' : Store) (tr : List Ev) (ch' : Option Nat) : Prop :=
+  (evalChecks w conds = .ok none ∧ w' = w ∧ st' = .failure ∧ OnlyRX rid xid tr) ∨
+  (∃ rs, evalChecks w conds = .ok (some rs) ∧ w' = publishResults w (opts.map Opt.flag) rs ∧
+     ((reduceLogic .xor rs = false ∧ st' = .failure ∧ OnlyRX rid xid tr) ∨
+      (reduceLogic .xor rs = true ∧ ChooserOut opts sid e none w' st' tr ch')))
+
+/-- **anatomy of one tick of the idiom** in a state satisfying the invariant -/
+theorem eo_tick (conds : List Check) (opts : List Opt) (rid xid sid : Nat) (hok : EitherOrOK conds opts rid xid sid)
+    (rst : Status) (rcur : Option Nat) (xst : Status) (xlog : List LEv) (sst : Status) (scur : Option Nat)
+    (os : List Node) (hrel : AllRel IsOpt opts os)
+    (hinv : EOInv opts (seq rid true rst rcur
+      [leaf xid xst (.checkValues conds .xor (some (opts.map Opt.flag))) xlog, sel sid false sst scur os]))
+    (f : Nat) (e : Env) (w : Store) (n' : Node) (w' : Store) (tr : List Ev)
+    (h : tickF f e w (seq rid true rst rcur
+      [leaf xid xst (.checkValues conds .xor (some (opts.map Opt.flag))) xlog, sel sid false sst scur os]) =
+        .ok (n', w', tr)) :
+    EOInv opts n' ∧ Ev.enter rid ∈ tr ∧
+    (rst = .running → ∃ oj ∈ opts, scur = some oj.oid ∧ w' = w ∧ Ev.enter xid ∉ tr ∧
+        ChooserOut opts sid e (some oj) w n'.status tr (chosenId n')) ∧
+    (rst ≠ .running → Ev.enter xid ∈ tr ∧ FreshOut conds opts rid xid sid e w n'.status w' tr (chosenId n')) := by
+  obtain ⟨hnd, hsid, hxid, hrid, hxs, hrx, hrs⟩ := hok.ids
+  have hne := hok.ne
+  have hnb := hok.1
+  have hself : Ev.enter rid ∈ tr := by
+    have := tickF_enter_self e f w _ n' w' tr h
+    simpa [Node.id] using this
+  obtain ⟨f', before, rest, trR, done, r, trl, rfl, hen, hl, hent, hsub, hshape⟩ :=
+    root_tick_inv f e w rid rst rcur _ n' w' tr (by simp) h
+  simp only [EOInv] at hinv
+  obtain ⟨hI1, hI2, hI3⟩ := hinv
+  have hidn := nodes_ids_nodup hrel hnd
+  have hin_l : ∀ j ∈ Skel.idsL (opts.map optSkel), Ev.enter j ∈ tr → Ev.enter j ∈ trl := by
+    intro j hj hin
+    rcases hent j hin with h1 | h1
+    · subst h1; exact absurd hj hrid
+    · exact h1
+  by_cases hst : rst = .running
+  · obtain ⟨hrc, hss, oj, hoj, hsc, ⟨cj, hcj, hocj, hrj⟩, hall⟩ := hI3 hst
+    subst hst; subst hrc
+    simp only [seqEntry, splitAtId, Node.id, hxs, ne_eq, not_true_eq_false, ↓reduceIte, pure, Except.pure,
+      Option.map, Except.ok.injEq, Prod.mk.injEq] at hen
+    obtain ⟨rfl, rfl, rfl⟩ := hen
+    obtain ⟨S1, trS, hT, hs1, hs2, hcase⟩ := seqLoop_single _ _ _ _ _ _ _ hl
+    have hact : ∀ o ∈ opts, ∀ c ∈ os, IsOpt o c → (c.status = .running ↔ some oj = some o) := by
+      intro o ho c hc hoc
+      constructor
+      · intro hr
+        have h1 := hall c hc hr
+        rw [isOpt_id hoc] at h1
+        rw [opt_ids_unique opts hnd o ho oj hoj o.oid (oid_mem_opt o) (by rw [h1]; exact oid_mem_opt oj)]
+      · intro ho'
+        simp only [Option.some.injEq] at ho'
+        subst ho'
+        have : c = cj := C18.eq_of_id_eq os hidn c hc cj hcj (by rw [isOpt_id hoc, isOpt_id hocj])
+        rw [this]; exact hrj
+    have hP : ∀ o, some oj = some o → sst = .running ∧ scur = some o.oid := by
+      intro o ho; simp only [Option.some.injEq] at ho; subst ho; exact ⟨hss, hsc⟩
+    have hS1id : S1.id = sid := id_of_skel (tickF_skel e f' w _ S1 w' trS hT)
+    have hnx : Ev.enter xid ∉ tr := by
+      intro hin
+      rcases hent _ hin with h1 | h1
+      · exact hrx h1.symm
+      · have := tickF_enters e f' w _ S1 w' trS hT _ (hs2 _ h1)
+        simp only [skel, Skel.ids, (optsAre_iff opts os).mp hrel, List.mem_cons] at this
+        rcases this with h2 | h2
+        · exact hxs h2
+        · exact hxid h2
+    have hfin : ∀ (X' : Node) (st' : Status) (cur' : Option Nat), st' = S1.status → (st' ≠ .success → cur' = some sid) →
+        w' = w ∧ EOInv opts (seq rid true st' cur' [X', S1]) ∧
+        ChooserOut opts sid e (some oj) w st' tr (chosenId (seq rid true st' cur' [X', S1])) :=
+      fun X' st' cur' h1 h2 => root_finish opts sid sst scur os hrel hne hnb hnd hsid hI1 (some oj) hact hP f' e w S1 w'
+        trS hT rid X' st' cur' tr h1 h2 (fun j hj hin => hs2 _ (hin_l j hj hin)) (fun ev hev => hsub _ (hs1 _ hev))
+    have hmain : ∃ X' st' cur', n' = seq rid true st' cur' [X', S1] ∧ st' = S1.status ∧
+        (st' ≠ .success → cur' = some sid) := by
+      rcases hcase with ⟨hns, rfl, rfl⟩ | ⟨hs, rfl, rfl⟩
+      · rcases hshape with ⟨h1, _⟩ | ⟨c', u, h1, rfl⟩
+        · cases h1
+        · simp only [Option.some.injEq, Prod.mk.injEq] at h1
+          obtain ⟨rfl, rfl⟩ := h1
+          exact ⟨(leaf xid xst (.checkValues conds .xor (some (opts.map Opt.flag))) xlog), S1.status, some S1.id, by simp, rfl, fun _ => by rw [hS1id]⟩
+      · rcases hshape with ⟨_, rfl⟩ | ⟨c', u, h1, _⟩
+        · exact ⟨(leaf xid xst (.checkValues conds .xor (some (opts.map Opt.flag))) xlog), .success, lastId? ([(leaf xid xst (.checkValues conds .xor (some (opts.map Opt.flag))) xlog)] ++ [S1]), by simp, hs.symm, fun h => absurd rfl h⟩
+        · cases h1
+    obtain ⟨X', st', cur', rfl, h1, h2⟩ := hmain
+    obtain ⟨g1, g2, g3⟩ := hfin X' st' cur' h1 h2
+    exact ⟨g2, hself, fun _ => ⟨oj, hoj, hsc, g1, hnx, g3⟩, fun hne' => absurd rfl hne'⟩
+  · have hnr := hI2 hst
+    obtain ⟨sst0, scur0, os0, hS0, hrel0, hok0, hnr0⟩ := chooser_reset opts sid sst scur os hrel hI1 hnr
+    obtain ⟨xst', xlog', hsp⟩ := entry_split xid xst (.checkValues conds .xor (some (opts.map Opt.flag))) xlog
+      (sel sid false sst scur os)
+    rw [hS0] at hsp
+    simp only [seqEntry, ne_eq, hst, not_false_eq_true, ↓reduceIte, pure, Except.pure, hsp, Except.ok.injEq,
+      Prod.mk.injEq] at hen
+    obtain ⟨rfl, rfl, rfl⟩ := hen
+    obtain ⟨X1, w1, trx, hX, hcase⟩ := seqLoop_cons_inv _ _ _ _ _ _ _ _ hl
+    obtain ⟨f2, rfl⟩ : ∃ f2, f' = f2 + 1 := by
+      cases f' with
+      | zero => simp [tickF] at hX
+      | succ f2 => exact ⟨f2, rfl⟩
+    simp only [tickF] at hX
+    obtain ⟨henx, hselfx, hxor⟩ := xor_tick e w xid xst' xlog' conds _ X1 w1 trx hX
+    rcases hcase with ⟨hns, h1, h2, h3, h4⟩ | ⟨hs, d2, tr2, hl2, h1, h2⟩
+    · -- the XOR check failed
+      subst h1 h2
+      subst w'
+      subst trl
+      rcases hshape with ⟨h1, _⟩ | ⟨c', u, h1, rfl⟩
+      · cases h1
+      · simp only [Option.some.injEq, Prod.mk.injEq] at h1
+        obtain ⟨rfl, rfl⟩ := h1
+        have hfail : X1.status = .failure := by
+          rcases hxor with ⟨_, _, h⟩ | ⟨rs, _, _, h⟩
+          · exact h
+          · cases hb : reduceLogic .xor rs
+            · rw [h, hb]; simp
+            · rw [h, hb] at hns; simp at hns
+        have hrx' : OnlyRX rid xid tr := by
+          intro j hj
+          rcases hent j hj with h | h
+          · exact Or.inl h
+          · right; simpa using henx j h
+        refine ⟨?_, hself, fun h => absurd h hst, fun _ => ⟨hsub _ hselfx, ?_⟩⟩
+        · simp only [List.nil_append, EOInv]
+          exact ⟨hok0, fun _ => hnr0, fun hr => by rw [hfail] at hr; cases hr⟩
+        · rcases hxor with ⟨h1, h2, h3⟩ | ⟨rs, h1, h2, h3⟩
+          · exact Or.inl ⟨h1, h2, hfail, hrx'⟩
+          · refine Or.inr ⟨rs, h1, h2, Or.inl ⟨?_, hfail, hrx'⟩⟩
+            cases hb : reduceLogic .xor rs
+            · rfl
+            · rw [h3, hb] at hns; simp at hns
+    · -- the XOR check passed
+      subst h1 h2
+      obtain ⟨rs, hev, hw1, hX1s⟩ : ∃ rs, evalChecks w conds = .ok (some rs) ∧
+          w1 = publishResults w (opts.map Opt.flag) rs ∧
+          X1.status = if reduceLogic .xor rs then .success else .failure := by
+        rcases hxor with ⟨_, _, h⟩ | h
+        · rw [h] at hs; cases hs
+        · exact h
+      have hb : reduceLogic .xor rs = true := by
+        cases hb : reduceLogic .xor rs
+        · rw [hX1s, hb] at hs; simp at hs
+        · rfl
+      obtain ⟨S1, trS, hT, hs1, hs2, hcase2⟩ := seqLoop_single _ _ _ _ _ _ _ hl2
+      have hact : ∀ o ∈ opts, ∀ c ∈ os0, IsOpt o c → (c.status = .running ↔ (none : Option Opt) = some o) :=
+        fun o ho c hc hoc => ⟨fun hr => absurd hr (hnr0 c hc), fun h => by cases h⟩
+      have hP : ∀ o, (none : Option Opt) = some o → sst0 = .running ∧ scur0 = some o.oid := fun o h => by cases h
+      have hS1id : S1.id = sid := id_of_skel (tickF_skel e (f2 + 1) w1 _ S1 w' trS hT)
+      have hin2 : ∀ j ∈ Skel.idsL (opts.map optSkel), Ev.enter j ∈ tr → Ev.enter j ∈ trS := by
+        intro j hj hin
+        have := hin_l j hj hin
+        simp only [List.mem_append] at this
+        rcases this with h1 | h1
+        · have : j = xid := by simpa using henx j h1
+          subst this; exact absurd hj hxid
+        · exact hs2 _ h1
+      have hfin : ∀ (X' : Node) (st' : Status) (cur' : Option Nat), st' = S1.status →
+          (st' ≠ .success → cur' = some sid) →
+          w' = w1 ∧ EOInv opts (seq rid true st' cur' [X', S1]) ∧
+          ChooserOut opts sid e none w1 st' tr (chosenId (seq rid true st' cur' [X', S1])) :=
+        fun X' st' cur' h1 h2 => root_finish opts sid sst0 scur0 os0 hrel0 hne hnb hnd hsid hok0 none hact hP (f2 + 1) e
+          w1 S1 w' trS hT rid X' st' cur' tr h1 h2 hin2 (fun ev hev => hsub _ (List.mem_append_right _ (hs1 _ hev)))
+      have hmain : ∃ st' cur', n' = seq rid true st' cur' [X1, S1] ∧ st' = S1.status ∧
+          (st' ≠ .success → cur' = some sid) := by
+        rcases hcase2 with ⟨hns, rfl, rfl⟩ | ⟨hs', rfl, rfl⟩
+        · rcases hshape with ⟨h1, _⟩ | ⟨c', u, h1, rfl⟩
+          · cases h1
+          · simp only [Option.some.injEq, Prod.mk.injEq] at h1
+            obtain ⟨rfl, rfl⟩ := h1
+            exact ⟨S1.status, some S1.id, by simp, rfl, fun _ => by rw [hS1id]⟩
+        · rcases hshape with ⟨_, rfl⟩ | ⟨c', u, h1, _⟩
+          · exact ⟨.success, lastId? ([] ++ [X1, S1]), by simp, hs'.symm, fun h => absurd rfl h⟩
+          · cases h1
+      obtain ⟨st', cur', rfl, h1, h2⟩ := hmain
+      obtain ⟨g1, g2, g3⟩ := hfin X1 st' cur' h1 h2
+      refine ⟨g2, hself, fun h => absurd h hst, fun _ => ⟨hsub _ (List.mem_append_left _ hselfx), ?_⟩⟩
+      subst g1
+      exact Or.inr ⟨rs, hev, hw1, Or.inr ⟨hb, g3⟩⟩
+
+end C18c
+
+namespace C18c
+open C18b
+
+theorem isEitherOr_status {conds : List Check} {opts : List Opt} {rid xid sid : Nat} {n : Node}
+    (hp : IsEitherOr conds opts rid xid sid n) : ∃ rst rcur xst xlog sst scur os,
+      n = seq rid true rst rcur
+        [leaf xid xst (.checkValues conds .xor (some (opts.map Opt.flag))) xlog, sel sid false sst scur os] ∧
+      AllRel IsOpt opts os ∧ n.status = rst ∧ chosenId n = scur := by
+  obtain ⟨rst, rcur, xst, xlog, sst, scur, os, rfl, hos⟩ := hp
+  exact ⟨rst, rcur, xst, xlog, sst, scur, os, rfl, hos, rfl, rfl⟩
+
+/-- one tick of an instance that is not RUNNING -/
+theorem fresh_core (conds : List Check) (opts : List Opt) (rid xid sid : Nat) (n : Node)
+    (hp : IsEitherOr conds opts rid xid sid n) (hok : EitherOrOK conds opts rid xid sid) (hinv : EOInv opts n)
+    (hst : n.status ≠ .running) (f : Nat) (e : Env) (w : Store) (n' : Node) (w' : Store) (tr : List Ev)
+    (h : tickF f e w n = .ok (n', w', tr)) :
+    IsEitherOr conds opts rid xid sid n' ∧ EOInv opts n' ∧ Ev.enter rid ∈ tr ∧ Ev.enter xid ∈ tr ∧
+    FreshOut conds opts rid xid sid e w n'.status w' tr (chosenId n') := by
+  have hp' := isEitherOr_of_skel hp (tickF_skel e f w n n' w' tr h)
+  obtain ⟨rst, rcur, xst, xlog, sst, scur, os, rfl, hos, hs, _⟩ := isEitherOr_status hp
+  obtain ⟨h1, h2, _, h4⟩ := eo_tick conds opts rid xid sid hok rst rcur xst xlog sst scur os hos hinv f e w n' w' tr h
+  have hst' : rst ≠ .running := by rw [← hs]; exact hst
+  exact ⟨hp', h1, h2, (h4 hst').1, (h4 hst').2⟩
+
+/-- one tick of an instance that is RUNNING -/
+theorem running_core (conds : List Check) (opts : List Opt) (rid xid sid : Nat) (n : Node)
+    (hp : IsEitherOr conds opts rid xid sid n) (hok : EitherOrOK conds opts rid xid sid) (hinv : EOInv opts n)
+    (hst : n.status = .running) (f : Nat) (e : Env) (w : Store) (n' : Node) (w' : Store) (tr : List Ev)
+    (h : tickF f e w n = .ok (n', w', tr)) :
+    IsEitherOr conds opts rid xid sid n' ∧ EOInv opts n' ∧ Ev.enter rid ∈ tr ∧
+    ∃ oj ∈ opts, chosenId n = some oj.oid ∧ w' = w ∧ Ev.enter xid ∉ tr ∧
+      ChooserOut opts sid e (some oj) w n'.status tr (chosenId n') := by
+  have hp' := isEitherOr_of_skel hp (tickF_skel e f w n n' w' tr h)
+  obtain ⟨rst, rcur, xst, xlog, sst, scur, os, rfl, hos, hs, hch⟩ := isEitherOr_status hp
+  obtain ⟨h1, h2, h3, _⟩ := eo_tick conds opts rid xid sid hok rst rcur xst xlog sst scur os hos hinv f e w n' w' tr h
+  have hst' : rst = .running := by rw [← hs]; exact hst
+  obtain ⟨oj, hoj, g1, g2, g3, g4⟩ := h3 hst'
+  exact ⟨hp', h1, h2, oj, hoj, by rw [hch, g1], g2, g3, g4⟩
+
+/-! ### the flags after the XOR leaf has published -/
+
+theorem flags_after (conds : List Check) (opts : List Opt) (rid xid sid : Nat)
+    (hok : EitherOrOK conds opts rid xid sid) (w : Store) (rs : List Bool)
+    (hev : evalChecks w conds = .ok (some rs)) :
+    rs.length = opts.length ∧
+    (∀ i (hi : i < opts.length) (hr : i < rs.length),
+      (publishResults w (opts.map Opt.flag) rs) opts[i].flag = some (.bool rs[i])) ∧
+    (∀ k, k ∉ opts.map Opt.flag → (publishResults w (opts.map Opt.flag) rs) k = w k) := by
+  have hlen : rs.length = opts.length := by rw [evalChecks_length w conds rs hev, hok.2.2.1]
+  refine ⟨hlen, ?_, fun k hk => C18.publishResults_not_mem _ rs w k hk⟩
+  intro i hi hr
+  have := C18.publishResults_get (opts.map Opt.flag) rs w hok.2.1 (by simp [hlen]) i (by simpa using hi) hr
+  simpa using this
+
+theorem flagOn_bool (w : Store) (k : String) (b : Bool) (h : w k = some (.bool b)) : flagOn w k ↔ b = true := by
+  simp [flagOn, h]
+
+/-- after publishing, "the guard passes" means exactly "the flag holds `True`" -/
+theorem flagOn_after (opts : List Opt) (w' : Store) (rs : List Bool) (hlen : rs.length = opts.length)
+    (hfl : ∀ i (hi : i < opts.length) (hr : i < rs.length), w' opts[i].flag = some (.bool rs[i]))
+    (o : Opt) (ho : o ∈ opts) : flagOn w' o.flag ↔ w' o.flag = some (.bool true) := by
+  obtain ⟨i, hi, rfl⟩ := List.getElem_of_mem ho
+  have := hfl i hi (by omega)
+  rw [flagOn_bool w' _ _ this, this]
+  simp
+
+theorem task_not_root (conds : List Check) (opts : List Opt) (rid xid sid : Nat)
+    (hok : EitherOrOK conds opts rid xid sid) (o : Opt) (ho : o ∈ opts) : o.task.id ≠ rid ∧ o.task.id ≠ xid := by
+  obtain ⟨_, _, hxid, hrid, _⟩ := hok.ids
+  have hm : o.task.id ∈ Skel.idsL (opts.map optSkel) := (mem_idsL_opts opts _).mpr ⟨o, ho, task_id_mem_opt o⟩
+  exact ⟨fun h => hrid (h ▸ hm), fun h => hxid (h ▸ hm)⟩
+
+end C18c
+
+/-- **1. one tick of the idiom that starts afresh** (root not RUNNING; state satisfying the invariant `EOInv`, e.g. the
+    fresh idiom or any state a history reaches), all condition variables present: `evalChecks w conds = some rs`.
+    The XOR leaf is evaluated; afterwards flag `i` holds `rs[i]` and no other variable has changed.
+    (a) an EVEN number of conditions hold (none, two, four, …): the root FAILS and nothing but the root and the XOR leaf
+        is entered — no subtree is ticked;
+    (b) an ODD number hold (the code folds XOR, so 3, 5, … also pass: KNOWN FINDING K3): every subtree that is entered
+        has its flag `True`; the options split as `o1 ++ o2` where the options of `o1` were all tried and did not
+        succeed — the guard of each was ticked and, if its flag is `True`, its subtree was ticked and returned
+        FAILURE (or INVALID) — and either all options were tried (`o2 = []`, the root FAILS), or the head `o` of `o2` has
+        its flag `True`, its subtree was ticked and returned the status (RUNNING / SUCCESS) the root returns, and
+        nothing of the later options `b` was entered.  So subtrees are entered in option order, a later one only after
+        every earlier flagged one returned FAILURE. -/
+theorem C18_eo_tick_fresh (conds : List Check) (opts : List C18c.Opt) (rid xid sid : Nat) (n : Node)
+    (hp : C18c.IsEitherOr conds opts rid xid sid n) (hok : C18c.EitherOrOK conds opts rid xid sid)
+    (hinv : C18c.EOInv opts n) (hst : n.status ≠ .running) (f : Nat) (e : Env) (w : Store) (rs : List Bool)
+    (hev : evalChecks w conds = .ok (some rs)) (n' : Node) (w' : Store) (tr : List Ev)
+    (h : tickF f e w n = .ok (n', w', tr)) :
+    C18c.IsEitherOr conds opts rid xid sid n' ∧ C18c.EOInv opts n' ∧
+    rs.length = opts.length ∧ Ev.enter xid ∈ tr ∧
+    (∀ i (hi : i < opts.length) (hr : i < rs.length), w' opts[i].flag = some (.bool rs[i])) ∧
+    (∀ k, k ∉ opts.map C18c.Opt.flag → w' k = w k) ∧
+    ((rs.filter id).length % 2 = 0 →
+      n'.status = .failure ∧ (∀ j, Ev.enter j ∈ tr → j = rid ∨ j = xid) ∧ ∀ o ∈ opts, Ev.enter o.task.id ∉ tr) ∧
+    ((rs.filter id).length % 2 = 1 →
+      (∀ o ∈ opts, Ev.enter o.task.id ∈ tr → w' o.flag = some (.bool true)) ∧
+      ∃ o1 o2, opts = o1 ++ o2 ∧
+        (∀ o ∈ o1, Ev.enter o.gid ∈ tr ∧
+          (w' o.flag = some (.bool true) → ∃ st t0, st ≠ .running ∧ st ≠ .success ∧ skel t0 = skel o.task ∧
+            C18c.TaskTick e w' tr st t0)) ∧
+        ((n'.status = .failure ∧ o2 = []) ∨
+         (∃ o b, o2 = o :: b ∧ (n'.status = .running ∨ n'.status = .success) ∧ C18c.chosenId n' = some o.oid ∧
+            w' o.flag = some (.bool true) ∧ Ev.enter o.gid ∈ tr ∧
+            (∃ t0, skel t0 = skel o.task ∧ C18c.TaskTick e w' tr n'.status t0) ∧
+            (∀ x ∈ b, Ev.enter x.task.id ∉ tr ∧ Ev.enter x.gid ∉ tr ∧ Ev.enter x.oid ∉ tr)))) := by
+  obtain ⟨hp', hinv', _, hx, hout⟩ := C18c.fresh_core conds opts rid xid sid n hp hok hinv hst f e w n' w' tr h
+  obtain ⟨hlen, hfl, hoth⟩ := C18c.flags_after conds opts rid xid sid hok w rs hev
+  have hpar := C18_xor_parity rs
+  rcases hout with ⟨h1, _⟩ | ⟨rs', h1, hw', hcase⟩
+  · rw [h1] at hev; cases hev
+  · rw [h1] at hev
+    simp only [Except.ok.injEq, Option.some.injEq] at hev
+    subst hev
+    subst hw'
+    refine ⟨hp', hinv', hlen, hx, hfl, hoth, ?_, ?_⟩
+    · intro heven
+      rcases hcase with ⟨_, hf, hrx⟩ | ⟨hb, _⟩
+      · refine ⟨hf, hrx, ?_⟩
+        intro o ho hin
+        obtain ⟨g1, g2⟩ := C18c.task_not_root conds opts rid xid sid hok o ho
+        rcases hrx _ hin with h | h
+        · exact g1 h
+        · exact g2 h
+      · rw [hpar] at hb; simp at hb; omega
+    · intro hodd
+      rcases hcase with ⟨hb, _⟩ | ⟨_, _, hA, _, o1, o2, hos, hB, hC⟩
+      · rw [hpar] at hb; simp at hb; omega
+      · have hflag := C18c.flagOn_after opts _ rs' hlen hfl
+        have ho1 : ∀ o ∈ o1, o ∈ opts := fun o ho => by rw [hos]; exact List.mem_append_left _ ho
+        refine ⟨?_, o1, o2, hos, ?_, ?_⟩
+        · intro o ho hin
+          rcases hA o ho hin with h | h
+          · cases h
+          · exact (hflag o ho).mp h
+        · intro o ho
+          obtain ⟨g1, g2⟩ := hB o ho
+          exact ⟨g2 (by simp), fun hfo => g1 (Or.inr ((hflag o (ho1 o ho)).mpr hfo))⟩
+        · rcases hC with hC | ⟨o, b, ho2, hrs, hch, hel, hTT, hg, _, hb⟩
+          · exact Or.inl hC
+          · right
+            have hoin : o ∈ opts := by rw [hos, ho2]; simp
+            refine ⟨o, b, ho2, hrs, hch, ?_, hg (by simp), hTT, hb⟩
+            rcases hel with h | h
+            · cases h
+            · exact (hflag o hoin).mp h
+
+namespace C18c
+
+theorem filter_none : ∀ (rs : List Bool), (∀ i (hi : i < rs.length), rs[i] = false) → rs.filter _root_.id = []
+| [], _ => rfl
+| r :: rs, h => by
+    have h0 : r = false := h 0 (by simp)
+    subst h0
+    simp only [List.filter, _root_.id]
+    exact filter_none rs (fun i hi => by
+      have := h (i + 1) (by simpa using hi)
+      simpa using this)
+
+/-- "exactly one condition holds", index form ⇒ the count is 1 -/
+theorem filter_one : ∀ (rs : List Bool) (j : Nat), j < rs.length →
+    (∀ i (hi : i < rs.length), rs[i] = true ↔ i = j) → (rs.filter _root_.id).length = 1
+| [], j, hj, _ => by simp at hj
+| r :: rs, 0, _, h => by
+    have h0 : r = true := (h 0 (by simp)).mpr rfl
+    subst h0
+    have : rs.filter _root_.id = [] := filter_none rs (fun i hi => by
+      have := h (i + 1) (by simpa using hi)
+      simp only [List.getElem_cons_succ, Nat.add_eq_zero_iff, Nat.succ_ne_self, and_false, iff_false,
+        Bool.not_eq_true] at this
+      exact this)
+    simp [List.filter, this]
+| r :: rs, j + 1, hj, h => by
+    have h0 : r = false := by
+      have := h 0 (by simp)
+      simp only [List.getElem_cons_zero] at this
+      cases r
+      · rfl
+      · exact absurd (this.mp rfl) (by omega)
+    subst h0
+    simp only [List.filter, _root_.id]
+    exact filter_one rs j (by simpa using hj) (fun i hi => by
+      have := h (i + 1) (by simpa using hi)
+      simpa using this)
+
+theorem status_mirror (st : Status) (h1 : st ≠ .running) (h2 : st ≠ .success) :
+    Status.failure = (if st = .invalid then .failure else st) := by
+  cases st <;> simp_all
+
+end C18c
+
+/-- **corollary, "exactly one condition holds"** (condition `j` and no other): exactly the subtree of option `j` is
+    ticked — it is entered, no other option's subtree is — and the root returns the status that subtree returned
+    (SUCCESS / FAILURE / RUNNING mirrored; a subtree returning INVALID counts as a failure). -/
+theorem C18_eo_exactly_one (conds : List Check) (opts : List C18c.Opt) (rid xid sid : Nat) (n : Node)
+    (hp : C18c.IsEitherOr conds opts rid xid sid n) (hok : C18c.EitherOrOK conds opts rid xid sid)
+    (hinv : C18c.EOInv opts n) (hst : n.status ≠ .running) (f : Nat) (e : Env) (w : Store) (rs : List Bool)
+    (hev : evalChecks w conds = .ok (some rs)) (j : Nat) (hj : j < opts.length)
+    (hone : ∀ i (hi : i < rs.length), rs[i] = true ↔ i = j)
+    (n' : Node) (w' : Store) (tr : List Ev) (h : tickF f e w n = .ok (n', w', tr)) :
+    Ev.enter opts[j].task.id ∈ tr ∧ (∀ o ∈ opts, Ev.enter o.task.id ∈ tr → o = opts[j]) ∧
+    (∃ st t0, skel t0 = skel opts[j].task ∧ C18c.TaskTick e w' tr st t0 ∧
+      n'.status = (if st = .invalid then .failure else st)) ∧
+    (n'.status = .running → C18c.chosenId n' = some opts[j].oid) := by
+  obtain ⟨_, _, hlen, _, hfl, _, _, hb⟩ :=
+    C18_eo_tick_fresh conds opts rid xid sid n hp hok hinv hst f e w rs hev n' w' tr h
+  have hjr : j < rs.length := by omega
+  have hcnt := C18c.filter_one rs j hjr hone
+  obtain ⟨hA, o1, o2, hos, hB, hC⟩ := hb (by rw [hcnt])
+  have hsole : ∀ o ∈ opts, w' o.flag = some (.bool true) → o = opts[j] := by
+    intro o ho hf
+    obtain ⟨i, hi, rfl⟩ := List.getElem_of_mem ho
+    have := hfl i hi (by omega)
+    rw [this] at hf
+    simp only [Option.some.injEq, Val.bool.injEq] at hf
+    have := (hone i (by omega)).mp hf
+    subst this; rfl
+  have hjf : w' opts[j].flag = some (.bool true) := by
+    rw [hfl j hj hjr, (hone j hjr).mpr rfl]
+  have hmain : ∃ st t0, skel t0 = skel opts[j].task ∧ C18c.TaskTick e w' tr st t0 ∧
+      n'.status = (if st = .invalid then .failure else st) ∧
+      (n'.status = .running → C18c.chosenId n' = some opts[j].oid) := by
+    rcases hC with ⟨hf, ho2⟩ | ⟨o, b, ho2, hrs, hch, hfo, _, ⟨t0, ht0, hTT⟩, _⟩
+    · have hall : ∀ x ∈ opts, x ∈ o1 := fun x hx => by rw [hos, ho2, List.append_nil] at hx; exact hx
+      have : opts[j] ∈ o1 := hall _ (List.getElem_mem hj)
+      obtain ⟨st, t0, g1, g2, g3, g4⟩ := (hB _ this).2 hjf
+      exact ⟨st, t0, g3, g4, by rw [hf]; exact C18c.status_mirror st g1 g2, fun hr => by rw [hf] at hr; cases hr⟩
+    · have hoin : o ∈ opts := by rw [hos, ho2]; simp
+      have := hsole o hoin hfo
+      subst this
+      refine ⟨n'.status, t0, ht0, hTT, ?_, fun _ => hch⟩
+      rcases hrs with h | h <;> rw [h] <;> simp
+  obtain ⟨st, t0, ht0, hTT, hst', hch⟩ := hmain
+  refine ⟨?_, fun o ho hin => hsole o ho (hA o ho hin), ⟨st, t0, ht0, hTT, hst'⟩, hch⟩
+  have := hTT.enter
+  rwa [id_of_skel ht0] at this
+
+/-- **corollary, "no condition or exactly two conditions hold"**: the idiom FAILS and no subtree is ticked (nothing but
+    the root and the XOR leaf is entered).  The same holds for every even number of true conditions
+    (`C18_eo_tick_fresh` (a)); it does NOT hold for three (K3, `C18_eo_three_counterexample`). -/
+theorem C18_eo_none_or_two (conds : List Check) (opts : List C18c.Opt) (rid xid sid : Nat) (n : Node)
+    (hp : C18c.IsEitherOr conds opts rid xid sid n) (hok : C18c.EitherOrOK conds opts rid xid sid)
+    (hinv : C18c.EOInv opts n) (hst : n.status ≠ .running) (f : Nat) (e : Env) (w : Store) (rs : List Bool)
+    (hev : evalChecks w conds = .ok (some rs))
+    (hcnt : (rs.filter id).length = 0 ∨ (rs.filter id).length = 2)
+    (n' : Node) (w' : Store) (tr : List Ev) (h : tickF f e w n = .ok (n', w', tr)) :
+    n'.status = .failure ∧ (∀ j, Ev.enter j ∈ tr → j = rid ∨ j = xid) ∧ (∀ o ∈ opts, Ev.enter o.task.id ∉ tr) := by
+  obtain ⟨_, _, _, _, _, _, ha, _⟩ :=
+    C18_eo_tick_fresh conds opts rid xid sid n hp hok hinv hst f e w rs hev n' w' tr h
+  exact ha (by rcases hcnt with h | h <;> rw [h])
+
+/-- a condition variable is missing (`evalChecks` returns `none`): the XOR leaf FAILS, nothing is published, the root
+    FAILS and no subtree is ticked -/
+theorem C18_eo_tick_missing (conds : List Check) (opts : List C18c.Opt) (rid xid sid : Nat) (n : Node)
+    (hp : C18c.IsEitherOr conds opts rid xid sid n) (hok : C18c.EitherOrOK conds opts rid xid sid)
+    (hinv : C18c.EOInv opts n) (hst : n.status ≠ .running) (f : Nat) (e : Env) (w : Store)
+    (hev : evalChecks w conds = .ok none)
+    (n' : Node) (w' : Store) (tr : List Ev) (h : tickF f e w n = .ok (n', w', tr)) :
+    w' = w ∧ n'.status = .failure ∧ (∀ j, Ev.enter j ∈ tr → j = rid ∨ j = xid) ∧
+    (∀ o ∈ opts, Ev.enter o.task.id ∉ tr) ∧ C18c.EOInv opts n' := by
+  obtain ⟨_, hinv', _, _, hout⟩ := C18c.fresh_core conds opts rid xid sid n hp hok hinv hst f e w n' w' tr h
+  rcases hout with ⟨_, h2, h3, h4⟩ | ⟨rs, h1, _⟩
+  · refine ⟨h2, h3, h4, ?_, hinv'⟩
+    intro o ho hin
+    obtain ⟨g1, g2⟩ := C18c.task_not_root conds opts rid xid sid hok o ho
+    rcases h4 _ hin with h | h
+    · exact g1 h
+    · exact g2 h
+  · rw [h1] at hev; cases hev
+
+/-- **2. one tick of the idiom while it is RUNNING** (state satisfying the invariant: the root remembers the chooser,
+    the chooser is RUNNING at option `oj`, option `oj` is RUNNING at its subtree, no other option is RUNNING) —
+    WHATEVER the conditions evaluate to now (there is no hypothesis on `w`):
+    * the XOR leaf is not re-evaluated (`enter xid` is not in the trace) and the blackboard is untouched, in particular
+      the flags keep the verdict of the last evaluation;
+    * the guard of `oj` is not re-entered: the memory Sequence `oj` resumes at its subtree;
+    * the memoryless chooser re-ticks the options from the first one: the guard of every option other than `oj` that it
+      reaches is re-entered and reads the FLAG (not the condition); a subtree is entered only if it is `oj`'s or its flag
+      is set; the exact account is as in `C18_eo_tick_fresh` (b), with "eligible" = "is `oj` or flag set";
+    * hence, when no other flag is set (exactly one condition held at the last evaluation), ONLY the subtree of `oj`
+      is ticked, the root mirrors its status, and if the idiom is still RUNNING it is still at `oj`:
+      **the idiom does not switch subtree while the chosen one is RUNNING**. -/
+theorem C18_eo_tick_running (conds : List Check) (opts : List C18c.Opt) (rid xid sid : Nat) (n : Node)
+    (hp : C18c.IsEitherOr conds opts rid xid sid n) (hok : C18c.EitherOrOK conds opts rid xid sid)
+    (hinv : C18c.EOInv opts n) (hst : n.status = .running) (f : Nat) (e : Env) (w : Store)
+    (n' : Node) (w' : Store) (tr : List Ev) (h : tickF f e w n = .ok (n', w', tr)) :
+    C18c.IsEitherOr conds opts rid xid sid n' ∧ C18c.EOInv opts n' ∧
+    ∃ oj ∈ opts, C18c.chosenId n = some oj.oid ∧
+      w' = w ∧ Ev.enter xid ∉ tr ∧ Ev.enter oj.gid ∉ tr ∧
+      (∀ o ∈ opts, Ev.enter o.task.id ∈ tr → o = oj ∨ C18b.flagOn w o.flag) ∧
+      (∀ o ∈ opts, Ev.enter o.gid ∈ tr → o ≠ oj) ∧
+      (∃ o1 o2, opts = o1 ++ o2 ∧
+        (∀ o ∈ o1, (o ≠ oj → Ev.enter o.gid ∈ tr) ∧
+          ((o = oj ∨ C18b.flagOn w o.flag) → ∃ st t0, st ≠ .running ∧ st ≠ .success ∧ skel t0 = skel o.task ∧
+            C18c.TaskTick e w tr st t0)) ∧
+        ((n'.status = .failure ∧ o2 = []) ∨
+         (∃ o b, o2 = o :: b ∧ (n'.status = .running ∨ n'.status = .success) ∧ C18c.chosenId n' = some o.oid ∧
+            (o = oj ∨ C18b.flagOn w o.flag) ∧ (o ≠ oj → Ev.enter o.gid ∈ tr) ∧
+            (∃ t0, skel t0 = skel o.task ∧ C18c.TaskTick e w tr n'.status t0) ∧
+            (∀ x ∈ b, Ev.enter x.task.id ∉ tr ∧ Ev.enter x.gid ∉ tr ∧ Ev.enter x.oid ∉ tr)))) ∧
+      ((∀ o ∈ opts, o ≠ oj → ¬ C18b.flagOn w o.flag) →
+        Ev.enter oj.task.id ∈ tr ∧ (∀ o ∈ opts, Ev.enter o.task.id ∈ tr → o = oj) ∧
+        (∃ st t0, skel t0 = skel oj.task ∧ C18c.TaskTick e w tr st t0 ∧
+          n'.status = (if st = .invalid then .failure else st)) ∧
+        (n'.status = .running → C18c.chosenId n' = some oj.oid)) := by
+  obtain ⟨hp', hinv', _, oj, hoj, hch, hw, hnx, hout⟩ :=
+    C18c.running_core conds opts rid xid sid n hp hok hinv hst f e w n' w' tr h
+  obtain ⟨_, hA, hA', o1, o2, hos, hB, hC⟩ := hout
+  have hel : ∀ o, C18c.EligO (some oj) w o ↔ (o = oj ∨ C18b.flagOn w o.flag) := by
+    intro o
+    simp only [C18c.EligO, Option.some.injEq]
+    constructor
+    · rintro (h | h)
+      · exact Or.inl h.symm
+      · exact Or.inr h
+    · rintro (h | h)
+      · exact Or.inl h.symm
+      · exact Or.inr h
+  have hne : ∀ o, (some oj ≠ some o) ↔ o ≠ oj := by
+    intro o
+    simp only [ne_eq, Option.some.injEq]
+    exact ⟨fun h h' => h h'.symm, fun h h' => h h'.symm⟩
+  have hgen : ∀ o ∈ opts, Ev.enter o.task.id ∈ tr → o = oj ∨ C18b.flagOn w o.flag :=
+    fun o ho hin => (hel o).mp (hA o ho hin)
+  refine ⟨hp', hinv', oj, hoj, hch, hw, hnx, fun hin => hA' oj hoj hin rfl, hgen,
+    fun o ho hin => (hne o).mp (hA' o ho hin), ⟨o1, o2, hos, ?_, ?_⟩, ?_⟩
+  · intro o ho
+    obtain ⟨g1, g2⟩ := hB o ho
+    exact ⟨fun h => g2 ((hne o).mpr h), fun h => g1 ((hel o).mpr h)⟩
+  · rcases hC with hC | ⟨o, b, ho2, hrs, hch', helo, hTT, hg, _, hb⟩
+    · exact Or.inl hC
+    · exact Or.inr ⟨o, b, ho2, hrs, hch', (hel o).mp helo, fun h => hg ((hne o).mpr h), hTT, hb⟩
+  · intro hsole
+    have honly : ∀ o ∈ opts, Ev.enter o.task.id ∈ tr → o = oj := by
+      intro o ho hin
+      rcases hgen o ho hin with h | h
+      · exact h
+      · exact Classical.byContradiction (fun hne' => hsole o ho hne' h)
+    have hmain : ∃ st t0, skel t0 = skel oj.task ∧ C18c.TaskTick e w tr st t0 ∧
+        n'.status = (if st = .invalid then .failure else st) ∧
+        (n'.status = .running → C18c.chosenId n' = some oj.oid) := by
+      rcases hC with ⟨hf, ho2⟩ | ⟨o, b, ho2, hrs, hch', helo, ⟨t0, ht0, hTT⟩, _⟩
+      · have hall : ∀ x ∈ opts, x ∈ o1 := fun x hx => by rw [hos, ho2, List.append_nil] at hx; exact hx
+        obtain ⟨st, t0, g1, g2, g3, g4⟩ := (hB oj (hall oj hoj)).1 (Or.inl rfl)
+        exact ⟨st, t0, g3, g4, by rw [hf]; exact C18c.status_mirror st g1 g2, fun hr => by rw [hf] at hr; cases hr⟩
+      · have hoin : o ∈ opts := by rw [hos, ho2]; simp
+        have : o = oj := by
+          rcases (hel o).mp helo with h | h
+          · exact h
+          · exact Classical.byContradiction (fun hne' => hsole o hoin hne' h)
+        subst this
+        refine ⟨n'.status, t0, ht0, hTT, ?_, fun _ => hch'⟩
+        rcases hrs with h | h <;> rw [h] <;> simp
+    obtain ⟨st, t0, ht0, hTT, hst', hch''⟩ := hmain
+    refine ⟨?_, honly, ⟨st, t0, ht0, hTT, hst'⟩, hch''⟩
+    have := hTT.enter
+    rwa [id_of_skel ht0] at this
+
+namespace C18c
+open C18b
+
+/-! ## 5. the invariant is kept by ticks, interrupts and pokes -/
+
+theorem chooser_reset2 (opts : List Opt) (sid : Nat) (sst : Status) (scur : Option Nat) (os : List Node)
+    (hrel : AllRel IsOpt opts os) (hok : ∀ c ∈ os, optOK c = true)
+    (hnr : sst = .invalid → ∀ c ∈ os, c.status ≠ .running) :
+    ∃ sst0 scur0 os0,
+      (if ¬ (sel sid false sst scur os).status = .invalid then (stopInv (sel sid false sst scur os)).1
+        else sel sid false sst scur os) = sel sid false sst0 scur0 os0 ∧
+      sst0 ≠ .running ∧ AllRel IsOpt opts os0 ∧ (∀ c ∈ os0, optOK c = true) ∧ (∀ c ∈ os0, c.status ≠ .running) := by
+  split
+  · refine ⟨.invalid, none, (stopInvNonInvalid os).1, by simp [stopInv], by simp, ?_, ?_, ?_⟩
+    · rw [optsAre_iff, stopInvNonInvalid_skelL]; exact (optsAre_iff opts os).mp hrel
+    · exact fun c hc => (stopInvNonInvalid_facts os hok c hc).1
+    · intro c hc
+      rw [(stopInvNonInvalid_facts os hok c hc).2]; simp
+  · rename_i hs
+    have hs' : sst = .invalid := by simpa [Node.status] using hs
+    exact ⟨sst, scur, os, rfl, by rw [hs']; simp, hrel, hok, hnr hs'⟩
+
+theorem eoInv_stop (conds : List Check) (opts : List Opt) (rid xid sid : Nat) (n : Node)
+    (hp : IsEitherOr conds opts rid xid sid n) (hinv : EOInv opts n) : EOInv opts (stopInv n).1 := by
+  obtain ⟨rst, rcur, xst, xlog, sst, scur, os, rfl, hos⟩ := hp
+  simp only [EOInv] at hinv
+  obtain ⟨hI1, hI2, hI3⟩ := hinv
+  have hnr : sst = .invalid → ∀ c ∈ os, c.status ≠ .running := by
+    intro hs
+    by_cases hr : rst = .running
+    · have := (hI3 hr).2.1
+      rw [hs] at this; cases this
+    · exact hI2 hr
+  obtain ⟨sst0, scur0, os0, hS0, _, hrel0, hok0, hnr0⟩ := chooser_reset2 opts sid sst scur os hos hI1 hnr
+  obtain ⟨xst', xlog', hsp⟩ := entry_split xid xst (.checkValues conds .xor (some (opts.map Opt.flag))) xlog
+    (sel sid false sst scur os)
+  rw [hS0] at hsp
+  simp only [stopInv, hsp, EOInv]
+  exact ⟨hok0, fun _ => hnr0, fun hr => by cases hr⟩
+
+/-- operations of a history that respect the idiom: the outside world does not write or remove the idiom's own flags
+    (it may change the CONDITION variables at any time) -/
+def OpOK (opts : List Opt) : Op → Prop
+| .poke k _ => ∀ o ∈ opts, k ≠ o.flag
+| _ => True
+
+end C18c
+
+/-- a fresh instance (or any instance that is not RUNNING, whose options are sane and not RUNNING) satisfies the
+    invariant -/
+theorem C18_eo_inv_fresh (conds : List Check) (opts : List C18c.Opt) (rid xid sid : Nat) (n : Node)
+    (hp : C18c.IsEitherOr conds opts rid xid sid n) (hst : n.status ≠ .running)
+    (hcs : ∀ S ∈ n.children, ∀ c ∈ S.children, C18c.optOK c = true ∧ c.status ≠ .running) : C18c.EOInv opts n := by
+  obtain ⟨rst, rcur, xst, xlog, sst, scur, os, rfl, hos⟩ := hp
+  simp only [C18c.EOInv]
+  have h1 : ∀ c ∈ os, C18c.optOK c = true ∧ c.status ≠ .running :=
+    fun c hc => hcs (sel sid false sst scur os) (by simp [Node.children]) c (by simpa [Node.children] using hc)
+  exact ⟨fun c hc => (h1 c hc).1, fun _ c hc => (h1 c hc).2, fun hr => absurd hr hst⟩
+
+/-- **3a. the invariant is preserved by every operation of a history**: ticks with any environment, root interrupts
+    and blackboard pokes (of ANY variable: the state invariant does not mention the blackboard), and so is being an
+    instance of the idiom. -/
+theorem C18_eo_inv_step (conds : List Check) (opts : List C18c.Opt) (rid xid sid : Nat) (n : Node) (w : Store)
+    (hp : C18c.IsEitherOr conds opts rid xid sid n) (hok : C18c.EitherOrOK conds opts rid xid sid)
+    (hinv : C18c.EOInv opts n) (op : Op) (n' : Node) (w' : Store) (tr : List Ev)
+    (h : step n w op = .ok (n', w', tr)) : C18c.IsEitherOr conds opts rid xid sid n' ∧ C18c.EOInv opts n' := by
+  refine ⟨C18c.isEitherOr_of_skel hp (step_skel n w op n' w' tr h), ?_⟩
+  cases op with
+  | tick e =>
+    simp only [step, tick] at h
+    by_cases hst : n.status = .running
+    · exact (C18c.running_core conds opts rid xid sid n hp hok hinv hst _ e w n' w' tr h).2.1
+    · exact (C18c.fresh_core conds opts rid xid sid n hp hok hinv hst _ e w n' w' tr h).2.1
+  | stop =>
+    simp only [step, Except.ok.injEq, Prod.mk.injEq] at h
+    obtain ⟨rfl, _, _⟩ := h
+    exact C18c.eoInv_stop conds opts rid xid sid n hp hinv
+  | poke k v =>
+    cases v with
+    | some v =>
+      simp only [step, Except.ok.injEq, Prod.mk.injEq] at h
+      obtain ⟨rfl, _, _⟩ := h
+      exact hinv
+    | none =>
+      simp only [step, Except.ok.injEq, Prod.mk.injEq] at h
+      obtain ⟨rfl, _, _⟩ := h
+      exact hinv
+
+/-- … hence by every history -/
+theorem C18_eo_inv_run (conds : List Check) (opts : List C18c.Opt) (rid xid sid : Nat)
+    (hok : C18c.EitherOrOK conds opts rid xid sid) : ∀ (ops : List Op) (n : Node) (w : Store),
+    C18c.IsEitherOr conds opts rid xid sid n → C18c.EOInv opts n →
+    ∀ (n' : Node) (w' : Store), run ops n w = .ok (n', w') →
+    C18c.IsEitherOr conds opts rid xid sid n' ∧ C18c.EOInv opts n'
+| [], n, w, hp, hinv, n', w', h => by
+    simp only [run, Except.ok.injEq, Prod.mk.injEq] at h
+    obtain ⟨rfl, rfl⟩ := h
+    exact ⟨hp, hinv⟩
+| op :: ops, n, w, hp, hinv, n', w', h => by
+    simp only [run] at h
+    cases hs : step n w op with
+    | error err => simp [hs] at h
+    | ok v =>
+      obtain ⟨n1, w1, tr⟩ := v
+      simp only [hs] at h
+      obtain ⟨hp1, hinv1⟩ := C18_eo_inv_step conds opts rid xid sid n w hp hok hinv op n1 w1 tr hs
+      exact C18_eo_inv_run conds opts rid xid sid hok ops n1 w1 hp1 hinv1 n' w' h
+
+namespace C18c
+open C18b
+
+/-- ghost invariant "the choice is unambiguous": while the idiom is RUNNING at option `oj`, no other flag is set
+    (exactly one condition held when the XOR leaf was last evaluated) -/
+def Sole (opts : List Opt) (w : Store) (n : Node) : Prop :=
+  n.status = .running → ∀ oj ∈ opts, chosenId n = some oj.oid → ∀ o ∈ opts, o ≠ oj → ¬ flagOn w o.flag
+
+/-- the conditions never hold three (five, …) at a time: whenever an odd number of them hold, exactly one does.
+    Always true for two conditions (`exclusive_of_two`); for more it is what the caller of `either_or` must ensure for
+    the idiom to behave as documented (KNOWN FINDING K3). -/
+def Exclusive (conds : List Check) : Prop :=
+  ∀ w rs, evalChecks w conds = .ok (some rs) → (rs.filter _root_.id).length % 2 = 1 →
+    (rs.filter _root_.id).length = 1
+
+theorem exclusive_of_two (conds : List Check) (h : conds.length = 2) : Exclusive conds := by
+  intro w rs hev hodd
+  have h1 := evalChecks_length w conds rs hev
+  have h2 := List.length_filter_le _root_.id rs
+  omega
+
+/-- the count is 1 ⇒ "exactly one condition holds", index form -/
+theorem one_of_filter : ∀ (rs : List Bool), (rs.filter _root_.id).length = 1 →
+    ∃ j, j < rs.length ∧ ∀ i (hi : i < rs.length), rs[i] = true ↔ i = j
+| [], h => by simp at h
+| true :: rs, h => by
+    simp only [List.filter, _root_.id, List.length_cons, Nat.add_eq_right, List.length_eq_zero_iff] at h
+    rw [List.filter_eq_nil_iff] at h
+    refine ⟨0, by simp, ?_⟩
+    intro i hi
+    cases i with
+    | zero => simp
+    | succ i =>
+      simp only [List.getElem_cons_succ, Nat.add_eq_zero_iff, Nat.succ_ne_self, and_false, iff_false]
+      exact h _ (List.getElem_mem _)
+| false :: rs, h => by
+    simp only [List.filter, _root_.id] at h
+    obtain ⟨j, hj, hall⟩ := one_of_filter rs h
+    refine ⟨j + 1, by simpa using hj, ?_⟩
+    intro i hi
+    cases i with
+    | zero => simp
+    | succ i =>
+      simp only [List.getElem_cons_succ, Nat.add_right_cancel_iff]
+      exact hall i (by simpa using hi)
+
+theorem oid_inj {opts : List Opt} (hnd : (Skel.idsL (opts.map optSkel)).Nodup) {a b : Opt} (ha : a ∈ opts)
+    (hb : b ∈ opts) (h : a.oid = b.oid) : a = b :=
+  opt_ids_unique opts hnd a ha b hb a.oid (oid_mem_opt a) (by rw [h]; exact oid_mem_opt b)
+
+end C18c
+
+/-- **3b. the ghost invariant `Sole` is kept by every tick** when the conditions are `Exclusive` -/
+theorem C18_eo_sole_tick (conds : List Check) (opts : List C18c.Opt) (rid xid sid : Nat) (n : Node)
+    (hp : C18c.IsEitherOr conds opts rid xid sid n) (hok : C18c.EitherOrOK conds opts rid xid sid)
+    (hex : C18c.Exclusive conds) (hinv : C18c.EOInv opts n) (f : Nat) (e : Env) (w : Store)
+    (hsole : C18c.Sole opts w n) (n' : Node) (w' : Store) (tr : List Ev) (h : tickF f e w n = .ok (n', w', tr)) :
+    C18c.Sole opts w' n' := by
+  have hnd := hok.ids.1
+  intro hr' oj' hoj' hch' o ho hne
+  by_cases hst : n.status = .running
+  · obtain ⟨_, _, oj, hoj, hch, hw, _, _, _, _, _, hs⟩ :=
+      C18_eo_tick_running conds opts rid xid sid n hp hok hinv hst f e w n' w' tr h
+    have hso := hsole hst oj hoj hch
+    have := (hs hso).2.2.2 hr'
+    rw [hch'] at this
+    simp only [Option.some.injEq] at this
+    have := C18c.oid_inj hnd hoj' hoj this
+    subst this
+    rw [hw]
+    exact hso o ho hne
+  · obtain ⟨_, _, _, _, hout⟩ := C18c.fresh_core conds opts rid xid sid n hp hok hinv hst f e w n' w' tr h
+    rcases hout with ⟨_, _, hf, _⟩ | ⟨rs, hev, _, hcase⟩
+    · rw [hf] at hr'; cases hr'
+    · rcases hcase with ⟨_, hf, _⟩ | ⟨hb, _⟩
+      · rw [hf] at hr'; cases hr'
+      · have hodd : (rs.filter _root_.id).length % 2 = 1 := by
+          rw [C18_xor_parity] at hb; simpa using hb
+        have hone := hex w rs hev hodd
+        obtain ⟨j, hj, hall⟩ := C18c.one_of_filter rs hone
+        obtain ⟨_, _, hlen, _, hfl, _⟩ :=
+          C18_eo_tick_fresh conds opts rid xid sid n hp hok hinv hst f e w rs hev n' w' tr h
+        have hjo : j < opts.length := by omega
+        obtain ⟨_, _, _, hch⟩ :=
+          C18_eo_exactly_one conds opts rid xid sid n hp hok hinv hst f e w rs hev j hjo hall n' w' tr h
+        have := hch hr'
+        rw [hch'] at this
+        simp only [Option.some.injEq] at this
+        have hoj := C18c.oid_inj hnd hoj' (List.getElem_mem hjo) this
+        obtain ⟨i, hi, rfl⟩ := List.getElem_of_mem ho
+        have hir : i < rs.length := by omega
+        have hij : i ≠ j := by
+          intro hij; subst hij; exact hne hoj.symm
+        have hri : rs[i] = false := by
+          cases hb' : rs[i]
+          · rfl
+          · exact absurd ((hall i hir).mp hb') hij
+        rw [C18c.flagOn_bool w' _ _ (hfl i hi hir), hri]
+        simp
+
+/-- … by every operation of a history that does not poke the idiom's flags … -/
+theorem C18_eo_sole_step (conds : List Check) (opts : List C18c.Opt) (rid xid sid : Nat) (n : Node) (w : Store)
+    (hp : C18c.IsEitherOr conds opts rid xid sid n) (hok : C18c.EitherOrOK conds opts rid xid sid)
+    (hex : C18c.Exclusive conds) (hinv : C18c.EOInv opts n) (hsole : C18c.Sole opts w n)
+    (op : Op) (hop : C18c.OpOK opts op) (n' : Node) (w' : Store) (tr : List Ev)
+    (h : step n w op = .ok (n', w', tr)) : C18c.Sole opts w' n' := by
+  cases op with
+  | tick e =>
+    simp only [step, tick] at h
+    exact C18_eo_sole_tick conds opts rid xid sid n hp hok hex hinv _ e w hsole n' w' tr h
+  | stop =>
+    simp only [step, Except.ok.injEq, Prod.mk.injEq] at h
+    obtain ⟨rfl, _, _⟩ := h
+    intro hr
+    rw [stopInv_status] at hr; cases hr
+  | poke k v =>
+    cases v with
+    | some v =>
+      simp only [step, Except.ok.injEq, Prod.mk.injEq] at h
+      obtain ⟨rfl, rfl, _⟩ := h
+      intro hr oj hoj hch o ho hne hf
+      exact hsole hr oj hoj hch o ho hne
+        ((C18b.flagOn_set_other w k o.flag v (fun heq => hop o ho heq.symm)).mp hf)
+    | none =>
+      simp only [step, Except.ok.injEq, Prod.mk.injEq] at h
+      obtain ⟨rfl, rfl, _⟩ := h
+      intro hr oj hoj hch o ho hne hf
+      exact hsole hr oj hoj hch o ho hne
+        ((C18b.flagOn_unset_other w k o.flag (fun heq => hop o ho heq.symm)).mp hf)
+
+/-- … hence by every such history -/
+theorem C18_eo_sole_run (conds : List Check) (opts : List C18c.Opt) (rid xid sid : Nat)
+    (hok : C18c.EitherOrOK conds opts rid xid sid) (hex : C18c.Exclusive conds) : ∀ (ops : List Op) (n : Node)
+    (w : Store), C18c.IsEitherOr conds opts rid xid sid n → C18c.EOInv opts n → C18c.Sole opts w n →
+    (∀ op ∈ ops, C18c.OpOK opts op) → ∀ (n' : Node) (w' : Store), run ops n w = .ok (n', w') →
+    C18c.IsEitherOr conds opts rid xid sid n' ∧ C18c.EOInv opts n' ∧ C18c.Sole opts w' n'
+| [], n, w, hp, hinv, hsole, _, n', w', h => by
+    simp only [run, Except.ok.injEq, Prod.mk.injEq] at h
+    obtain ⟨rfl, rfl⟩ := h
+    exact ⟨hp, hinv, hsole⟩
+| op :: ops, n, w, hp, hinv, hsole, hops, n', w', h => by
+    simp only [run] at h
+    cases hs : step n w op with
+    | error err => simp [hs] at h
+    | ok v =>
+      obtain ⟨n1, w1, tr⟩ := v
+      simp only [hs] at h
+      obtain ⟨hp1, hinv1⟩ := C18_eo_inv_step conds opts rid xid sid n w hp hok hinv op n1 w1 tr hs
+      have hsole1 := C18_eo_sole_step conds opts rid xid sid n w hp hok hex hinv hsole op (hops op (by simp)) n1 w1 tr hs
+      exact C18_eo_sole_run conds opts rid xid sid hok hex ops n1 w1 hp1 hinv1 hsole1
+        (fun o ho => hops o (by simp [ho])) n' w' h
+
+/-- **3c. the history statement.**  After ANY history of ticks (arbitrary environments), root interrupts and blackboard
+    pokes (of any variable — in particular of the condition variables), starting from an instance that satisfies the
+    invariant (e.g. the fresh idiom), the state reached is an instance satisfying the invariant, and EVERY next tick
+    from it is of one of the two kinds of 1 and 2 (so `C18_eo_tick_fresh`, `C18_eo_exactly_one`, `C18_eo_none_or_two`,
+    `C18_eo_tick_missing`, `C18_eo_tick_running` apply to it); spelled out:
+    * idiom not RUNNING: the XOR leaf is evaluated; a missing condition variable, or an even number of true conditions
+      ⇒ FAILURE and no subtree is ticked; exactly condition `j` true ⇒ exactly subtree `j` is ticked and mirrored; the
+      flags are rewritten to the verdicts and nothing else changes on the blackboard;
+    * idiom RUNNING at option `oj`: the XOR leaf is NOT re-evaluated, the blackboard is untouched, the guard of `oj` is
+      not re-entered, and a subtree is entered only if it is `oj`'s or its flag is set. -/
+theorem C18_eo_history (conds : List Check) (opts : List C18c.Opt) (rid xid sid : Nat)
+    (hok : C18c.EitherOrOK conds opts rid xid sid) (ops : List Op) (n : Node) (w : Store)
+    (hp : C18c.IsEitherOr conds opts rid xid sid n) (hinv : C18c.EOInv opts n)
+    (n1 : Node) (w1 : Store) (hrun : run ops n w = .ok (n1, w1)) :
+    C18c.IsEitherOr conds opts rid xid sid n1 ∧ C18c.EOInv opts n1 ∧
+    ∀ (e : Env) (n2 : Node) (w2 : Store) (tr : List Ev), tick e w1 n1 = .ok (n2, w2, tr) →
+      C18c.IsEitherOr conds opts rid xid sid n2 ∧ C18c.EOInv opts n2 ∧
+      (n1.status ≠ .running → Ev.enter xid ∈ tr ∧
+        (evalChecks w1 conds = .ok none →
+          w2 = w1 ∧ n2.status = .failure ∧ ∀ o ∈ opts, Ev.enter o.task.id ∉ tr) ∧
+        (∀ rs, evalChecks w1 conds = .ok (some rs) →
+          (∀ i (hi : i < opts.length) (hr : i < rs.length), w2 opts[i].flag = some (.bool rs[i])) ∧
+          (∀ k, k ∉ opts.map C18c.Opt.flag → w2 k = w1 k) ∧
+          ((rs.filter id).length % 2 = 0 → n2.status = .failure ∧ ∀ o ∈ opts, Ev.enter o.task.id ∉ tr) ∧
+          (∀ j (hj : j < opts.length), (∀ i (hi : i < rs.length), rs[i] = true ↔ i = j) →
+            Ev.enter opts[j].task.id ∈ tr ∧ (∀ o ∈ opts, Ev.enter o.task.id ∈ tr → o = opts[j]) ∧
+            ∃ st t0, skel t0 = skel opts[j].task ∧ C18c.TaskTick e w2 tr st t0 ∧
+              n2.status = (if st = .invalid then .failure else st)))) ∧
+      (n1.status = .running → ∃ oj ∈ opts, C18c.chosenId n1 = some oj.oid ∧
+        w2 = w1 ∧ Ev.enter xid ∉ tr ∧ Ev.enter oj.gid ∉ tr ∧
+        (∀ o ∈ opts, Ev.enter o.task.id ∈ tr → o = oj ∨ C18b.flagOn w1 o.flag)) := by
+  obtain ⟨hp1, hinv1⟩ := C18_eo_inv_run conds opts rid xid sid hok ops n w hp hinv n1 w1 hrun
+  refine ⟨hp1, hinv1, ?_⟩
+  intro e n2 w2 tr ht
+  have ht' : tickF (height n1 + 1) e w1 n1 = .ok (n2, w2, tr) := ht
+  obtain ⟨hp2, hinv2⟩ := C18_eo_inv_step conds opts rid xid sid n1 w1 hp1 hok hinv1 (.tick e) n2 w2 tr ht
+  refine ⟨hp2, hinv2, ?_, ?_⟩
+  · intro hst
+    obtain ⟨_, _, _, hx, _⟩ := C18c.fresh_core conds opts rid xid sid n1 hp1 hok hinv1 hst _ e w1 n2 w2 tr ht'
+    refine ⟨hx, ?_, ?_⟩
+    · intro hev
+      obtain ⟨g1, g2, _, g4, _⟩ := C18_eo_tick_missing conds opts rid xid sid n1 hp1 hok hinv1 hst _ e w1 hev n2 w2 tr ht'
+      exact ⟨g1, g2, g4⟩
+    · intro rs hev
+      obtain ⟨_, _, _, _, hfl, hoth, ha, _⟩ :=
+        C18_eo_tick_fresh conds opts rid xid sid n1 hp1 hok hinv1 hst _ e w1 rs hev n2 w2 tr ht'
+      refine ⟨hfl, hoth, fun heven => ⟨(ha heven).1, (ha heven).2.2⟩, ?_⟩
+      intro j hj hone
+      obtain ⟨g1, g2, g3, _⟩ :=
+        C18_eo_exactly_one conds opts rid xid sid n1 hp1 hok hinv1 hst _ e w1 rs hev j hj hone n2 w2 tr ht'
+      exact ⟨g1, g2, g3⟩
+  · intro hst
+    obtain ⟨_, _, oj, hoj, hch, hw, hnx, hng, hgen, _⟩ :=
+      C18_eo_tick_running conds opts rid xid sid n1 hp1 hok hinv1 hst _ e w1 n2 w2 tr ht'
+    exact ⟨oj, hoj, hch, hw, hnx, hng, hgen⟩
+
+/-- **3d. "does not switch subtree while the chosen one is RUNNING", over histories.**  When the conditions are
+    `Exclusive` (never an odd number ≥ 3 of them at a time — automatic for two options, `C18c.exclusive_of_two`) and the
+    outside world does not poke the idiom's own flags (it may poke the CONDITION variables as it likes), then after any
+    history the ghost invariant `Sole` holds, and a tick of a RUNNING idiom — whatever the conditions evaluate to now —
+    does not re-evaluate the XOR leaf, leaves the blackboard alone, does not re-enter the guard of the chosen option
+    `oj`, ticks the subtree of `oj` and NO other subtree, mirrors its status, and if still RUNNING afterwards is still at
+    `oj`. -/
+theorem C18_eo_history_exclusive (conds : List Check) (opts : List C18c.Opt) (rid xid sid : Nat)
+    (hok : C18c.EitherOrOK conds opts rid xid sid) (hex : C18c.Exclusive conds) (ops : List Op) (n : Node) (w : Store)
+    (hp : C18c.IsEitherOr conds opts rid xid sid n) (hinv : C18c.EOInv opts n) (hsole : C18c.Sole opts w n)
+    (hops : ∀ op ∈ ops, C18c.OpOK opts op) (n1 : Node) (w1 : Store) (hrun : run ops n w = .ok (n1, w1)) :
+    C18c.IsEitherOr conds opts rid xid sid n1 ∧ C18c.EOInv opts n1 ∧ C18c.Sole opts w1 n1 ∧
+    ∀ (e : Env) (n2 : Node) (w2 : Store) (tr : List Ev), tick e w1 n1 = .ok (n2, w2, tr) →
+      C18c.Sole opts w2 n2 ∧
+      (n1.status = .running → ∃ oj ∈ opts, C18c.chosenId n1 = some oj.oid ∧
+        w2 = w1 ∧ Ev.enter xid ∉ tr ∧ Ev.enter oj.gid ∉ tr ∧
+        Ev.enter oj.task.id ∈ tr ∧ (∀ o ∈ opts, Ev.enter o.task.id ∈ tr → o = oj) ∧
+        (∃ st t0, skel t0 = skel oj.task ∧ C18c.TaskTick e w2 tr st t0 ∧
+          n2.status = (if st = .invalid then .failure else st)) ∧
+        (n2.status = .running → C18c.chosenId n2 = some oj.oid)) := by
+  obtain ⟨hp1, hinv1, hsole1⟩ :=
+    C18_eo_sole_run conds opts rid xid sid hok hex ops n w hp hinv hsole hops n1 w1 hrun
+  refine ⟨hp1, hinv1, hsole1, ?_⟩
+  intro e n2 w2 tr ht
+  have ht' : tickF (height n1 + 1) e w1 n1 = .ok (n2, w2, tr) := ht
+  refine ⟨C18_eo_sole_tick conds opts rid xid sid n1 hp1 hok hex hinv1 _ e w1 hsole1 n2 w2 tr ht', ?_⟩
+  intro hst
+  obtain ⟨_, _, oj, hoj, hch, hw, hnx, hng, _, _, _, hs⟩ :=
+    C18_eo_tick_running conds opts rid xid sid n1 hp1 hok hinv1 hst _ e w1 n2 w2 tr ht'
+  obtain ⟨g1, g2, g3, g4⟩ := hs (hsole1 hst oj hoj hch)
+  subst hw
+  exact ⟨oj, hoj, hch, rfl, hnx, hng, g1, g2, g3, g4⟩
+
+/-- a state that is not RUNNING satisfies `Sole` with any blackboard (so the fresh idiom does) -/
+theorem C18_eo_sole_fresh (opts : List C18c.Opt) (w : Store) (n : Node) (hst : n.status ≠ .running) :
+    C18c.Sole opts w n := fun h => absurd h hst
+
+namespace C18c
+open C18b
+
+/-! ## 6. connection to the constructor `Idioms.eitherOr` + `Idioms.renumber` -/
+
+/-- the option node of a freshly built idiom -/
+def freshOpt (o : Opt) : Node := optNode o .invalid none .invalid [] o.task
+
+/-- the options of the renumbered idiom, the first one starting at id `k`; also the first id after them -/
+def optsOf : Nat → List (String × Node) → List Opt × Nat
+| k, [] => ([], k)
+| k, (fl, t) :: ts =>
+    let r := Idioms.renum (k + 2) t
+    let rest := optsOf r.2.1 ts
+    ({ flag := fl, oid := k, gid := k + 1, task := r.1 } :: rest.1, rest.2)
+
+theorem renum_option (k : Nat) (fl : String) (t : Node) :
+    (Idioms.renum k (C18.eoOption fl t)).1 =
+      freshOpt { flag := fl, oid := k, gid := k + 1, task := (Idioms.renum (k + 2) t).1 } ∧
+    (Idioms.renum k (C18.eoOption fl t)).2.1 = (Idioms.renum (k + 2) t).2.1 := by
+  simp [C18.eoOption, Idioms.renum, Idioms.renumL, freshOpt, optNode, C18.flagCheck]
+
+theorem renumL_options : ∀ (ps : List (String × Node)) (k : Nat),
+    (Idioms.renumL k (ps.map (fun p => C18.eoOption p.1 p.2))).1 = (optsOf k ps).1.map freshOpt
+| [], k => by simp [optsOf, Idioms.renumL]
+| (fl, t) :: ps, k => by
+    simp only [List.map_cons, renumL_cons, (renum_option k fl t).1, (renum_option k fl t).2,
+      renumL_options ps _, optsOf]
+
+theorem optsOf_flags : ∀ (ps : List (String × Node)) (k : Nat), (optsOf k ps).1.map Opt.flag = ps.map Prod.fst
+| [], k => by simp [optsOf]
+| (fl, t) :: ps, k => by simp [optsOf, optsOf_flags ps]
+
+theorem optsOf_length : ∀ (ps : List (String × Node)) (k : Nat), (optsOf k ps).1.length = ps.length
+| [], k => by simp [optsOf]
+| (fl, t) :: ps, k => by simp [optsOf, optsOf_length ps]
+
+end C18c
+
+/-- **4. connection to the constructor**, for ALL lists of conditions and subtrees of equal length: the tree built by
+    `Idioms.eitherOr` and numbered by `Idioms.renumber` is an instance of the idiom — root id 1, XOR leaf id 2, chooser
+    id 3 — over the options `optsOf 4 (keys zip subtrees)` (option `i`: flag `ns/(i+1)`, the subtree renumbered,
+    consecutive pre-order ids); the flags are the keys the XOR leaf publishes, pairwise distinct, one per condition; the
+    fresh idiom satisfies the state invariant `EOInv` and, with any blackboard, the ghost invariant `Sole`. -/
+theorem C18_eo_isEitherOr (conds : List Check) (subtrees : List Node) (ns : String)
+    (hlen : conds.length = subtrees.length) :
+    C18c.IsEitherOr conds (C18c.optsOf 4 ((C18.eoKeys conds.length ns).zip subtrees)).1 1 2 3
+      (Idioms.renumber (Idioms.eitherOr conds subtrees ns)) ∧
+    (C18c.optsOf 4 ((C18.eoKeys conds.length ns).zip subtrees)).1.map C18c.Opt.flag = C18.eoKeys conds.length ns ∧
+    ((C18c.optsOf 4 ((C18.eoKeys conds.length ns).zip subtrees)).1.map C18c.Opt.flag).Nodup ∧
+    conds.length = (C18c.optsOf 4 ((C18.eoKeys conds.length ns).zip subtrees)).1.length ∧
+    (Idioms.renumber (Idioms.eitherOr conds subtrees ns)).status = .invalid ∧
+    C18c.EOInv (C18c.optsOf 4 ((C18.eoKeys conds.length ns).zip subtrees)).1
+      (Idioms.renumber (Idioms.eitherOr conds subtrees ns)) ∧
+    ∀ w, C18c.Sole (C18c.optsOf 4 ((C18.eoKeys conds.length ns).zip subtrees)).1 w
+      (Idioms.renumber (Idioms.eitherOr conds subtrees ns)) := by
+  have hkl := C18.eoKeys_length conds.length ns
+  have hfl : (C18c.optsOf 4 ((C18.eoKeys conds.length ns).zip subtrees)).1.map C18c.Opt.flag =
+      C18.eoKeys conds.length ns := by
+    rw [C18c.optsOf_flags]
+    exact List.map_fst_zip (by rw [hkl, hlen]; exact Nat.le_refl _)
+  have hshape : Idioms.renumber (Idioms.eitherOr conds subtrees ns) =
+      seq 1 true .invalid none
+        [leaf 2 .invalid (.checkValues conds .xor (some (C18.eoKeys conds.length ns))) [],
+         sel 3 false .invalid none
+           ((C18c.optsOf 4 ((C18.eoKeys conds.length ns).zip subtrees)).1.map C18c.freshOpt)] := by
+    rw [C18_eo_shape]
+    simp only [Idioms.renumber, Idioms.renum, Idioms.renumL]
+    rw [C18c.renumL_options]
+  have hp : C18c.IsEitherOr conds (C18c.optsOf 4 ((C18.eoKeys conds.length ns).zip subtrees)).1 1 2 3
+      (Idioms.renumber (Idioms.eitherOr conds subtrees ns)) := by
+    rw [hshape]
+    refine ⟨.invalid, none, .invalid, [], .invalid, none, _, by rw [hfl], ?_⟩
+    exact C18b.allRel_map _ _ (fun o => ⟨_, _, _, _, _, rfl, rfl⟩) _
+  have hst : (Idioms.renumber (Idioms.eitherOr conds subtrees ns)).status = .invalid := by rw [hshape]; rfl
+  refine ⟨hp, hfl, by rw [hfl]; exact C18.eoKeys_nodup _ _, ?_, hst, ?_,
+    fun w => C18_eo_sole_fresh _ w _ (by rw [hst]; simp)⟩
+  · rw [C18c.optsOf_length, List.length_zip, hkl, hlen]; simp
+  · apply C18_eo_inv_fresh conds _ 1 2 3 _ hp (by rw [hst]; simp)
+    rw [hshape]
+    intro S hS c hc
+    simp only [Node.children, List.mem_cons, List.not_mem_nil, or_false] at hS
+    rcases hS with rfl | rfl
+    · simp [Node.children] at hc
+    · simp only [Node.children, List.mem_map] at hc
+      obtain ⟨o, _, rfl⟩ := hc
+      exact ⟨rfl, by simp [C18c.freshOpt, C18c.optNode, Node.status]⟩
